@@ -27,25 +27,34 @@
     negative witnesses: `trailing_ws_lost` (finding: trailing white space of a comment is not written),
         `placeholder_in_comment_rewritten`; `C12.D28_header_inside_subdict`, `C12.D32_second_comment_lost`
 
-  The canonical rule (by evaluation of the model and by `docEs` / `hoistPlaceholders`): per dict level the entries and
-  comments keep their order, except that at the TOP level all block comments are moved in front (in their order);
-  keys and scalars are respelled by the writer (`cnormI`).  `_clean` removes, per level and per kind, every comment
-  entry whose text equals that of an earlier one of the level; the theorems here assume that no level repeats a
-  comment (`levelOK`, `lvlI`), in which case `_clean` changes nothing (`clean_fix`).
+  The canonical rule (by evaluation of the model, `docEs` / `hoistPlaceholders`, and `cleanRec_gen`): per dict level
+  the entries and comments keep their order, except that at the TOP level all block comments are moved in front (in
+  their order); keys and scalars are respelled by the writer (`cnormI`).  `_clean` (part of `denC`) removes, per level
+  and per kind, every comment entry whose text equals that of an earlier one of the level (`cleanT`, `dedupLvl`,
+  `lvl_dedup`: each text once, at its first place).
 
-  Hypotheses `HW c items` (all decidable but the counter's validity):
+  Two layers of statements:
+    * no level repeats a comment (`HW c items`; `_clean` changes nothing: `clean_fix`, `denC_closed`):
+        `C12_write_commented`, `C12_roundtrip_commented`, example `exW…`;
+    * comments may repeat (`HW2 c items`; `cleanRec_gen`: `_clean` in general, `denC_closed2`, `kept_blocks`):
+        `C12_write_commented2`, `C12_roundtrip_commented2` with `writtenDoc2 items` = header ++ `canonItems (dedupI items)`,
+        example `exDup…` (the SDict by evaluation: the repeated comments are gone from data and tables).
+
+  Hypotheses `HW c items` / `HW2 c items` (all decidable but the counter's validity):
     `wf`     `CSrcWFItems 1 items` (hypothesis of the reader side)
     `ok`     keys and scalars in the value domain of C01 (`isDomKey`, `isDomScalar`, `domXs`), and for every comment:
              `lineTextOK` / `blockTextOK`: no trailing white space on any line and no carriage return (otherwise
              `remove_trailing_spaces` changes the text: `trailing_ws_lost`), no word `LINECOMMENTdddddd` /
              `BLOCKCOMMENTdddddd` inside (otherwise a later insertion pass rewrites it: `placeholder_in_comment_rewritten`)
-    `lev`, `levs`  at every level: typed keys pairwise distinct (a later duplicate key overwrites the earlier entry and
-             the comments inside it), no line comment twice, no block comment twice
+    `lev`, `levs` (HW) / `keys`, `keysAll` (HW2)  at every level the typed keys are pairwise distinct (a later duplicate
+             key overwrites the earlier entry and the comments inside it); HW only: no line comment twice, no block
+             comment twice at one level
     `nLine`, `nBlock`, `hc`  at most `counterLimit + 1` line comments (ids distinct), at most 10^6 block comments,
              a counter state that can occur
     `first`  the first block comment of the document stands at the top level (else D28)
-    `indep`  no block comment text occurs inside the concatenation of the block comments written before it (the first
-             one completed by the default header) — exactly the test `bc in sofar` of `insert_block_comments` (else D32)
+    `indep`  no block comment text (of the document without repetitions) occurs inside the concatenation of the block
+             comments written before it (the first one completed by the default header) — exactly the test
+             `bc in sofar` of `insert_block_comments` (else D32)
 -/
 import DictIO.Props.C12read
 import DictIO.Props.C12hdr
@@ -4101,5 +4110,2339 @@ theorem placeholder_in_comment_rewritten :
     decide +kernel
   rw [hraw, C12.nativeHeader_eq]
   decide +kernel
+
+/-! ## 23. `_clean` in general: repeated comments of one level are removed -/
+
+/-- delete the ids one after the other -/
+def delIds (ids : List Nat) (T : Tbl Str) : Tbl Str := ids.foldl (fun t i => Tbl.del i t) T
+
+def delKeys (ks : List Key) (D : Entries) : Entries := ks.foldl (fun d k => delKey k d) D
+
+theorem get_del_ne {i j : Nat} (h : i ≠ j) : ∀ (T : Tbl Str), (Tbl.del j T).get? i = T.get? i
+  | [] => rfl
+  | (a, b) :: T => by
+    simp only [Tbl.del]
+    split
+    · next e =>
+      subst e
+      have hne : ¬ a = i := fun e => h e.symm
+      simp [Tbl.get?, hne]
+    · simp only [Tbl.get?, get_del_ne h T]
+
+theorem get_delIds {i : Nat} : ∀ (ids : List Nat) (T : Tbl Str), i ∉ ids → (delIds ids T).get? i = T.get? i
+  | [], _, _ => rfl
+  | j :: ids, T, h => by
+    simp only [List.mem_cons, not_or] at h
+    simp only [delIds, List.foldl_cons]
+    have := get_delIds ids (Tbl.del j T) h.2
+    simp only [delIds] at this
+    rw [this, get_del_ne h.1]
+
+theorem del_sublist (j : Nat) : ∀ (T : Tbl Str), (Tbl.del j T).Sublist T
+  | [] => List.Sublist.refl _
+  | (a, b) :: T => by
+    simp only [Tbl.del]
+    split
+    · exact List.sublist_cons_self _ _
+    · exact (del_sublist j T).cons_cons _
+
+theorem delIds_sublist : ∀ (ids : List Nat) (T : Tbl Str), (delIds ids T).Sublist T
+  | [], _ => List.Sublist.refl _
+  | j :: ids, T => by
+    simp only [delIds, List.foldl_cons]
+    exact (delIds_sublist ids (Tbl.del j T)).trans (del_sublist j T)
+
+theorem mem_del_of_ne {e : Nat × Str} {j : Nat} (h : e.1 ≠ j) : ∀ {T : Tbl Str}, e ∈ T → e ∈ Tbl.del j T
+  | (a, b) :: T, hm => by
+    simp only [Tbl.del]
+    rcases List.mem_cons.mp hm with rfl | hm
+    · simp [h]
+    · split
+      · exact hm
+      · exact List.mem_cons_of_mem _ (mem_del_of_ne h hm)
+
+theorem mem_delIds {e : Nat × Str} : ∀ (ids : List Nat) {T : Tbl Str}, e ∈ T → e.1 ∉ ids → e ∈ delIds ids T
+  | [], _, hm, _ => hm
+  | j :: ids, T, hm, h => by
+    simp only [List.mem_cons, not_or] at h
+    simp only [delIds, List.foldl_cons]
+    exact mem_delIds ids (mem_del_of_ne h.1 hm) h.2
+
+theorem delIds_append (a b : List Nat) (T : Tbl Str) : delIds (a ++ b) T = delIds b (delIds a T) := by
+  simp [delIds, List.foldl_append]
+
+theorem delKey_filter (k : Key) : ∀ {D : Entries}, (keys D).Nodup → delKey k D = D.filter fun e => e.1 ≠ k
+  | [], _ => rfl
+  | (k0, v) :: D, h => by
+    simp only [keys, List.map_cons, List.nodup_cons] at h
+    simp only [delKey, List.filter_cons]
+    by_cases e : k0 = k
+    · subst e
+      simp only [if_true, ne_eq, not_true_eq_false, decide_false, Bool.false_eq_true, if_false]
+      symm
+      apply List.filter_eq_self.mpr
+      intro e' he'
+      simp only [ne_eq, decide_eq_true_eq]
+      intro e2
+      exact h.1 (by rw [← e2]; exact List.mem_map_of_mem he')
+    · simp only [e, if_false, ne_eq, not_false_eq_true, decide_true, if_true]
+      rw [delKey_filter k h.2]
+
+theorem keys_filter_nodup {D : Entries} (p : Key × Val → Bool) (h : (keys D).Nodup) : (keys (D.filter p)).Nodup :=
+  ((List.filter_sublist).map _).nodup h
+
+theorem delKeys_filter : ∀ (ks : List Key) {D : Entries}, (keys D).Nodup → delKeys ks D = D.filter fun e => e.1 ∉ ks
+  | [], D, _ => by
+    simp only [delKeys, List.foldl_nil, List.not_mem_nil, not_false_eq_true, decide_true]
+    exact (List.filter_eq_self.mpr fun _ _ => rfl).symm
+  | k :: ks, D, h => by
+    simp only [delKeys, List.foldl_cons]
+    have := delKeys_filter ks (D := delKey k D) (by rw [delKey_filter k h]; exact keys_filter_nodup _ h)
+    simp only [delKeys] at this
+    rw [this, delKey_filter k h, List.filter_filter]
+    apply List.filter_congr
+    intro e _
+    simp only [List.mem_cons, not_or, ne_eq, Bool.decide_and]
+    simp [Bool.and_comm]
+
+/-- the ids (of a candidate list) whose text was seen before -/
+def dupFrom (T : Tbl Str) : List Str → List Nat → List Nat
+  | _, [] => []
+  | seen, i :: is =>
+    match T.get? i with
+    | none => dupFrom T seen is
+    | some txt => if seen.contains txt then i :: dupFrom T seen is else dupFrom T (seen ++ [txt]) is
+
+theorem dupFrom_congr {T T' : Tbl Str} : ∀ (ids : List Nat) (seen : List Str), (∀ i ∈ ids, T'.get? i = T.get? i) →
+    dupFrom T' seen ids = dupFrom T seen ids
+  | [], _, _ => rfl
+  | i :: is, seen, h => by
+    have hi := h i List.mem_cons_self
+    have hr : ∀ s, dupFrom T' s is = dupFrom T s is := fun s => dupFrom_congr is s fun j hj => h j (List.mem_cons_of_mem _ hj)
+    simp only [dupFrom, hi, hr]
+
+theorem dupFrom_sub (T : Tbl Str) : ∀ (ids : List Nat) (seen : List Str), ∀ i ∈ dupFrom T seen ids, i ∈ ids
+  | [], _, i, h => by simp [dupFrom] at h
+  | j :: is, seen, i, h => by
+    simp only [dupFrom] at h
+    split at h
+    · exact List.mem_cons_of_mem _ (dupFrom_sub T is seen i h)
+    · split at h
+      · rcases List.mem_cons.mp h with rfl | h
+        · exact List.mem_cons_self
+        · exact List.mem_cons_of_mem _ (dupFrom_sub T is seen i h)
+      · exact List.mem_cons_of_mem _ (dupFrom_sub T is _ i h)
+
+def phKey (l : Bool) (i : Nat) : Key := .str (phWord l i)
+
+theorem look_phKey (T : Tbl Str) (l : Bool) {i : Nat} (hi : i ≤ 999999) : look T (phKey l i) = T.get? i := look_ph T l hi
+
+/-- one pass of `_clean_data` over its candidates: the candidates whose text was seen before are deleted, from the
+    level and from the table -/
+theorem cstepF_del (l : Bool) : ∀ (ids : List Nat) (d : Entries) (t : Tbl Str) (seen : List Str), ids.Nodup →
+    (∀ i ∈ ids, i ≤ 999999) →
+    ∃ seen', (ids.map (phKey l)).foldl cstepF (d, t, seen) =
+      (delKeys ((dupFrom t seen ids).map (phKey l)) d, delIds (dupFrom t seen ids) t, seen')
+  | [], d, t, seen, _, _ => ⟨seen, rfl⟩
+  | i :: is, d, t, seen, hnd, hi => by
+    simp only [List.nodup_cons] at hnd
+    have hii := hi i List.mem_cons_self
+    have his : ∀ j ∈ is, j ≤ 999999 := fun j hj => hi j (List.mem_cons_of_mem _ hj)
+    simp only [List.map_cons, List.foldl_cons]
+    have hf : firstSixDigits (phWord l i) = some i := firstSix_ph l hii
+    cases hg : t.get? i with
+    | none =>
+      have e2 : cstepF (d, t, seen) (phKey l i) = (d, t, seen) := by simp [cstepF, phKey, hf, hg]
+      rw [e2]
+      simp only [dupFrom, hg]
+      exact cstepF_del l is d t seen hnd.2 his
+    | some txt =>
+      by_cases hc : seen.contains txt = true
+      · have hm : txt ∈ seen := List.contains_iff_mem.mp hc
+        have e2 : cstepF (d, t, seen) (phKey l i) = (delKey (phKey l i) d, Tbl.del i t, seen) := by
+          simp [cstepF, phKey, hf, hg, hm]
+        rw [e2]
+        obtain ⟨seen', ih⟩ := cstepF_del l is (delKey (phKey l i) d) (Tbl.del i t) seen hnd.2 his
+        have hcg : dupFrom (Tbl.del i t) seen is = dupFrom t seen is :=
+          dupFrom_congr is seen fun j hj => get_del_ne (i := j) (j := i) (fun e => hnd.1 (by rw [← e]; exact hj)) t
+        rw [hcg] at ih
+        refine ⟨seen', ?_⟩
+        rw [ih]
+        simp only [dupFrom, hg, hc, if_true, List.map_cons, delKeys, List.foldl_cons, delIds]
+      · have hc' : seen.contains txt = false := by simpa using hc
+        have hm : txt ∉ seen := fun hm => hc (List.contains_iff_mem.mpr hm)
+        have e2 : cstepF (d, t, seen) (phKey l i) = (d, t, seen ++ [txt]) := by
+          simp [cstepF, phKey, hf, hg, hm]
+        rw [e2]
+        simp only [dupFrom, hg, hc', Bool.false_eq_true, if_false]
+        exact cstepF_del l is d t (seen ++ [txt]) hnd.2 his
+
+/-- the ids of the comment entries of kind `l` at the top of a level -/
+def topIds (l : Bool) : Entries → List Nat
+  | [] => []
+  | (k, .leaf x) :: r =>
+    (match phOf k x with
+     | some (l', i) => if l' = l then [i] else []
+     | none => []) ++ topIds l r
+  | (_, .dict _) :: r => topIds l r
+  | (_, .list _) :: r => topIds l r
+
+theorem topIds_le (l : Bool) : ∀ (D : Entries), ∀ i ∈ topIds l D, i ≤ 999999
+  | [], i, h => by simp [topIds] at h
+  | (k, .dict es) :: r, i, h => topIds_le l r i (by simpa [topIds] using h)
+  | (k, .list xs) :: r, i, h => topIds_le l r i (by simpa [topIds] using h)
+  | (k, .leaf x) :: r, i, h => by
+    simp only [topIds, List.mem_append] at h
+    rcases h with h | h
+    · cases hp : phOf k x with
+      | none => rw [hp] at h; simp at h
+      | some li =>
+        obtain ⟨l', j⟩ := li
+        rw [hp] at h
+        simp only at h
+        split at h
+        · simp only [List.mem_singleton] at h; subst h; exact (phOf_some hp).2.2
+        · simp at h
+    · exact topIds_le l r i h
+
+/-- the candidates of the three passes of `_clean_data` on a level of the shape `wshEs` -/
+theorem cands_level (d : Nat) : ∀ (D : Entries), wshEs d D = true →
+    (keys D).filter selB = (topIds false D).map (phKey false) ∧ (keys D).filter selI = [] ∧
+    (keys D).filter selL = (topIds true D).map (phKey true)
+  | [], _ => by simp [keys, topIds]
+  | (k, .dict es) :: r, h => by
+    simp only [wshEs, Bool.and_eq_true] at h
+    obtain ⟨s1, s2, s3⟩ := sel_dom h.1.1
+    have ih := cands_level d r h.2
+    simp only [keys, List.map_cons, List.filter_cons, s1, s2, s3, Bool.false_eq_true, if_false, topIds]
+    exact ih
+  | (k, .list xs) :: r, h => by
+    simp only [wshEs, Bool.and_eq_true] at h
+    obtain ⟨s1, s2, s3⟩ := sel_dom h.1.1
+    have ih := cands_level d r h.2
+    simp only [keys, List.map_cons, List.filter_cons, s1, s2, s3, Bool.false_eq_true, if_false, topIds]
+    exact ih
+  | (k, .leaf x) :: r, h => by
+    simp only [wshEs, Bool.and_eq_true, Bool.or_eq_true, decide_eq_true_eq] at h
+    have ih := cands_level d r h.2
+    cases hp : phOf k x with
+    | none =>
+      rw [hp] at h
+      rcases h.1 with h1 | h1
+      · cases h1
+      · obtain ⟨s1, s2, s3⟩ := sel_dom h1.1.1
+        simp only [keys, List.map_cons, List.filter_cons, s1, s2, s3, Bool.false_eq_true, if_false, topIds, hp,
+          List.nil_append]
+        exact ih
+    | some li =>
+      obtain ⟨l, i⟩ := li
+      obtain ⟨rfl, rfl, hi⟩ := phOf_some hp
+      cases l with
+      | true =>
+        obtain ⟨s1, s2, s3⟩ := sel_line hi
+        simp only [keys, List.map_cons, List.filter_cons, s1, s2, s3, Bool.false_eq_true, if_false, if_true, topIds, hp,
+          List.nil_append, List.singleton_append, phKey, Bool.true_eq_false]
+        exact ⟨ih.1, ih.2.1, by rw [ih.2.2]⟩
+      | false =>
+        obtain ⟨s1, s2, s3⟩ := sel_block hi
+        simp only [keys, List.map_cons, List.filter_cons, s1, s2, s3, Bool.false_eq_true, if_false, if_true, topIds, hp,
+          List.nil_append, List.singleton_append, phKey]
+        exact ⟨by rw [ih.1], ih.2.1, ih.2.2⟩
+
+/-- dropping entries whose keys are block-comment placeholder keys does not change the line-comment ids -/
+theorem topIds_filter_block (kb : List Nat) : ∀ (D : Entries),
+    topIds true (D.filter fun e => e.1 ∉ kb.map (phKey false)) = topIds true D
+  | [] => rfl
+  | (k, .dict es) :: r => by
+    simp only [List.filter_cons]
+    split
+    · simp only [topIds, topIds_filter_block kb r]
+    · simp only [topIds, topIds_filter_block kb r]
+  | (k, .list xs) :: r => by
+    simp only [List.filter_cons]
+    split
+    · simp only [topIds, topIds_filter_block kb r]
+    · simp only [topIds, topIds_filter_block kb r]
+  | (k, .leaf x) :: r => by
+    have ih := topIds_filter_block kb r
+    simp only [List.filter_cons]
+    split
+    · simp only [topIds, ih]
+    · next hnot =>
+      simp only [decide_eq_true_eq, Decidable.not_not, List.mem_map] at hnot
+      obtain ⟨j, hj, e⟩ := hnot
+      simp only [topIds, ih]
+      cases hp : phOf k x with
+      | none => rfl
+      | some li =>
+        obtain ⟨l, i⟩ := li
+        obtain ⟨hk, _, hi⟩ := phOf_some hp
+        cases l with
+        | false => rfl
+        | true =>
+          exfalso
+          rw [hk, phKey] at e
+          simp only [Key.str.injEq] at e
+          have hB : 'B' ∈ phWord true i := by rw [← e]; simp [phWord, kw_BI.1]
+          exact linePh_no_B i hB
+
+/-- the comment entries `_clean_data` removes from the top of a level: those whose text equals that of an earlier
+    entry of the same kind -/
+def topDup (l : Bool) (T : Tbl Str) (D : Entries) : List Nat := dupFrom T [] (topIds l D)
+
+def topKeys (s : SD) (D : Entries) : List Key :=
+  (topDup false s.blockC D).map (phKey false) ++ (topDup true s.lineC D).map (phKey true)
+
+theorem cstep_del (l : Bool) (sel : Key → Bool) (D : Entries) (T : Tbl Str) (ids : List Nat)
+    (hc : (keys D).filter sel = ids.map (phKey l)) (hk : (keys D).Nodup) (hnd : ids.Nodup) (hi : ∀ i ∈ ids, i ≤ 999999) :
+    cstep sel D T = (D.filter (fun e => e.1 ∉ (dupFrom T [] ids).map (phKey l)), delIds (dupFrom T [] ids) T) := by
+  obtain ⟨seen', h⟩ := cstepF_del l ids D T [] hnd hi
+  simp only [cstep, hc, h, delKeys_filter _ hk]
+
+/-- **`_clean_data` on one level** of the shape `wshEs` with pairwise distinct keys and ids -/
+theorem cleanLevel_gen (s : SD) (d : Nat) (D : Entries) (hw : wshEs d D = true) (hk : (keys D).Nodup)
+    (hb : (topIds false D).Nodup) (hl : (topIds true D).Nodup) :
+    cleanLevel s D =
+      ({ s with blockC := delIds (topDup false s.blockC D) s.blockC, lineC := delIds (topDup true s.lineC D) s.lineC },
+       D.filter fun e => e.1 ∉ topKeys s D) := by
+  obtain ⟨c1, c2, c3⟩ := cands_level d D hw
+  have hB := cstep_del false selB D s.blockC (topIds false D) c1 hk hb (topIds_le false D)
+  -- the level after the block pass
+  have hw' : wshEs d (D.filter fun e => e.1 ∉ (dupFrom s.blockC [] (topIds false D)).map (phKey false)) = true :=
+    wshEs_filter d _ D hw
+  have hk' := keys_filter_nodup (fun e => decide (e.1 ∉ (dupFrom s.blockC [] (topIds false D)).map (phKey false))) hk
+  obtain ⟨c1', c2', c3'⟩ := cands_level d _ hw'
+  rw [topIds_filter_block] at c3'
+  have hI := cstep_nil selI (D.filter fun e => e.1 ∉ (dupFrom s.blockC [] (topIds false D)).map (phKey false)) s.incl c2'
+  have hL := cstep_del true selL _ s.lineC (topIds true D) c3' hk' hl (topIds_le true D)
+  rw [cleanLevel_eq, hB]
+  simp only [hI, hL]
+  cases s
+  simp only [topDup, topKeys, List.filter_filter, SD.mk.injEq, Prod.mk.injEq, true_and, and_true]
+  apply List.filter_congr
+  intro e _
+  simp only [List.mem_append, not_or, Bool.decide_and]
+  exact Bool.and_comm _ _
+
+/-- the second half of `_clean`: every dict-valued entry of the level is cleaned in turn, the state threaded through -/
+def subsRec (fuel : Nat) : SD → Entries → SD × Entries
+  | s, [] => (s, [])
+  | s, (k, .dict sub) :: r =>
+    ((subsRec fuel (cleanRec fuel s sub).1 r).1, (k, .dict (cleanRec fuel s sub).2) :: (subsRec fuel (cleanRec fuel s sub).1 r).2)
+  | s, (k, .leaf x) :: r => ((subsRec fuel s r).1, (k, .leaf x) :: (subsRec fuel s r).2)
+  | s, (k, .list xs) :: r => ((subsRec fuel s r).1, (k, .list xs) :: (subsRec fuel s r).2)
+
+theorem setKey_append_mem {k : Key} (v w : Val) : ∀ (a b : Entries), k ∉ keys a →
+    setKey k v (a ++ (k, w) :: b) = a ++ (k, v) :: b
+  | [], b, _ => by simp [setKey]
+  | (k0, v0) :: a, b, h => by
+    simp only [keys, List.map_cons, List.mem_cons, not_or] at h
+    have hne : ¬ k0 = k := fun e => h.1 e.symm
+    simp only [List.cons_append, setKey, hne, if_false, setKey_append_mem v w a b h.2]
+
+theorem subs_fold (fuel : Nat) : ∀ (todo done : Entries) (s : SD), (keys (done ++ todo)).Nodup →
+    todo.foldl (fun (acc : SD × Entries) e =>
+        match e.2 with
+        | .dict sub => ((cleanRec fuel acc.1 sub).1, setKey e.1 (.dict (cleanRec fuel acc.1 sub).2) acc.2)
+        | _ => acc) (s, done ++ todo) =
+      ((subsRec fuel s todo).1, done ++ (subsRec fuel s todo).2)
+  | [], done, s, _ => by simp [subsRec]
+  | (k, .leaf x) :: r, done, s, h => by
+    have := subs_fold fuel r (done ++ [(k, .leaf x)]) s (by simpa using h)
+    simp only [List.append_assoc, List.singleton_append] at this
+    simp only [List.foldl_cons, subsRec, this]
+  | (k, .list xs) :: r, done, s, h => by
+    have := subs_fold fuel r (done ++ [(k, .list xs)]) s (by simpa using h)
+    simp only [List.append_assoc, List.singleton_append] at this
+    simp only [List.foldl_cons, subsRec, this]
+  | (k, .dict sub) :: r, done, s, h => by
+    have hk : k ∉ keys done := by
+      simp only [keys, List.map_append, List.map_cons] at h
+      have := (List.nodup_append.mp h).2.2
+      intro hm
+      exact this k hm k List.mem_cons_self rfl
+    have := subs_fold fuel r (done ++ [(k, .dict (cleanRec fuel s sub).2)]) (cleanRec fuel s sub).1 (by
+      simp only [keys, List.map_append, List.map_cons, List.map_nil] at h ⊢
+      simpa using h)
+    simp only [List.append_assoc, List.singleton_append] at this
+    simp only [List.foldl_cons, subsRec, setKey_append_mem _ _ done r hk, this]
+
+theorem cleanRec_succ (fuel : Nat) (s : SD) (D : Entries) (h : (keys (cleanLevel s D).2).Nodup) :
+    cleanRec (fuel + 1) s D = subsRec fuel (cleanLevel s D).1 (cleanLevel s D).2 := by
+  have := subs_fold fuel (cleanLevel s D).2 [] (cleanLevel s D).1 (by simpa using h)
+  simp only [List.nil_append] at this
+  have e : cleanRec (fuel + 1) s D = (cleanLevel s D).2.foldl (fun (acc : SD × Entries) e =>
+        match e.2 with
+        | .dict sub => ((cleanRec fuel acc.1 sub).1, setKey e.1 (.dict (cleanRec fuel acc.1 sub).2) acc.2)
+        | _ => acc) ((cleanLevel s D).1, (cleanLevel s D).2) := rfl
+  rw [e, this]
+
+/-- the ids of the comment entries of kind `l` in the whole tree, in document order -/
+def idsT (l : Bool) : Entries → List Nat
+  | [] => []
+  | (_, .dict es) :: r => idsT l es ++ idsT l r
+  | (_, .list _) :: r => idsT l r
+  | (k, .leaf x) :: r =>
+    (match phOf k x with
+     | some (l', i) => if l' = l then [i] else []
+     | none => []) ++ idsT l r
+
+/-- **what `_clean` leaves of a tree** (specification): at every level, a comment entry whose text (looked up in the
+    table of its kind) equals that of an earlier comment entry of the same kind and level is dropped -/
+def cleanT (L B : Tbl Str) : List Str → List Str → Entries → Entries
+  | _, _, [] => []
+  | sl, sb, (k, .dict es) :: r => (k, .dict (cleanT L B [] [] es)) :: cleanT L B sl sb r
+  | sl, sb, (k, .list xs) :: r => (k, .list xs) :: cleanT L B sl sb r
+  | sl, sb, (k, .leaf x) :: r =>
+    match phOf k x with
+    | some (true, i) =>
+      (match L.get? i with
+       | none => (k, .leaf x) :: cleanT L B sl sb r
+       | some t => if sl.contains t then cleanT L B sl sb r else (k, .leaf x) :: cleanT L B (sl ++ [t]) sb r)
+    | some (false, i) =>
+      (match B.get? i with
+       | none => (k, .leaf x) :: cleanT L B sl sb r
+       | some t => if sb.contains t then cleanT L B sl sb r else (k, .leaf x) :: cleanT L B sl (sb ++ [t]) r)
+    | none => (k, .leaf x) :: cleanT L B sl sb r
+
+def mapSubs (f : Entries → Entries) : Entries → Entries
+  | [] => []
+  | (k, .dict sub) :: r => (k, .dict (f sub)) :: mapSubs f r
+  | (k, .leaf x) :: r => (k, .leaf x) :: mapSubs f r
+  | (k, .list xs) :: r => (k, .list xs) :: mapSubs f r
+
+theorem dom_notMem_phKeys {k : Key} (h : isDomKey k = true) (l : Bool) {ids : List Nat} (hi : ∀ i ∈ ids, i ≤ 999999) :
+    k ∉ ids.map (phKey l) := by
+  intro hm
+  obtain ⟨i, hi', e⟩ := List.mem_map.mp hm
+  exact dom_ne_ph h l (hi i hi') e.symm
+
+theorem phKey_inj {l l' : Bool} {i j : Nat} (hi : i ≤ 999999) (hj : j ≤ 999999) (h : phKey l i = phKey l' j) :
+    l = l' ∧ i = j := by
+  simp only [phKey, Key.str.injEq] at h
+  exact phWord_inj hi hj h
+
+theorem dupFrom_le (T : Tbl Str) {ids : List Nat} (h : ∀ i ∈ ids, i ≤ 999999) (seen : List Str) :
+    ∀ i ∈ dupFrom T seen ids, i ≤ 999999 := fun i hi => h i (dupFrom_sub T ids seen i hi)
+
+theorem filt_keep (ks : List Key) (e : Key × Val) (r : Entries) (h : e.1 ∉ ks) :
+    ((e :: r).filter fun e => e.1 ∉ ks) = e :: r.filter fun e => e.1 ∉ ks := by
+  simp [List.filter_cons, h]
+
+theorem filt_drop (ks : List Key) (e : Key × Val) (r : Entries) (h : e.1 ∈ ks) :
+    ((e :: r).filter fun e => e.1 ∉ ks) = r.filter fun e => e.1 ∉ ks := by
+  simp [List.filter_cons, h]
+
+/-- a key that does not occur in the level may be dropped from the list of keys to remove -/
+theorem filt_extra (k : Key) (ka kb : List Key) (r : Entries) (h : k ∉ keys r) :
+    (r.filter fun e => e.1 ∉ ka ++ k :: kb) = r.filter fun e => e.1 ∉ ka ++ kb := by
+  apply List.filter_congr
+  intro e he
+  have : e.1 ≠ k := fun e' => h (by rw [← e']; exact List.mem_map_of_mem he)
+  simp [this]
+
+/-- the level after `_clean_data`, its sub-dicts cleaned: the specification -/
+theorem mapSubs_filter (L B : Tbl Str) (d : Nat) : ∀ (D : Entries) (sl sb : List Str), wshEs d D = true →
+    (keys D).Nodup → (topIds false D).Nodup → (topIds true D).Nodup →
+    mapSubs (cleanT L B [] []) (D.filter fun e => e.1 ∉ (dupFrom B sb (topIds false D)).map (phKey false) ++
+        (dupFrom L sl (topIds true D)).map (phKey true)) = cleanT L B sl sb D
+  | [], _, _, _, _, _, _ => by simp [mapSubs, cleanT]
+  | (k, .dict es) :: r, sl, sb, hw, hk, hb, hl => by
+    simp only [wshEs, Bool.and_eq_true] at hw
+    simp only [keys, List.map_cons, List.nodup_cons] at hk
+    have e1 : topIds false ((k, Val.dict es) :: r) = topIds false r := by simp only [topIds]
+    have e2 : topIds true ((k, Val.dict es) :: r) = topIds true r := by simp only [topIds]
+    rw [e1] at hb; rw [e2] at hl
+    rw [e1, e2, filt_keep _ _ _ (by
+      show k ∉ _
+      simp only [List.mem_append, not_or]
+      exact ⟨dom_notMem_phKeys hw.1.1 false (dupFrom_le B (topIds_le false r) sb),
+        dom_notMem_phKeys hw.1.1 true (dupFrom_le L (topIds_le true r) sl)⟩)]
+    simp only [mapSubs, cleanT]
+    rw [mapSubs_filter L B d r sl sb hw.2 hk.2 hb hl]
+  | (k, .list xs) :: r, sl, sb, hw, hk, hb, hl => by
+    simp only [wshEs, Bool.and_eq_true] at hw
+    simp only [keys, List.map_cons, List.nodup_cons] at hk
+    have e1 : topIds false ((k, Val.list xs) :: r) = topIds false r := by simp only [topIds]
+    have e2 : topIds true ((k, Val.list xs) :: r) = topIds true r := by simp only [topIds]
+    rw [e1] at hb; rw [e2] at hl
+    rw [e1, e2, filt_keep _ _ _ (by
+      show k ∉ _
+      simp only [List.mem_append, not_or]
+      exact ⟨dom_notMem_phKeys hw.1.1 false (dupFrom_le B (topIds_le false r) sb),
+        dom_notMem_phKeys hw.1.1 true (dupFrom_le L (topIds_le true r) sl)⟩)]
+    simp only [mapSubs, cleanT]
+    rw [mapSubs_filter L B d r sl sb hw.2 hk.2 hb hl]
+  | (k, .leaf x) :: r, sl, sb, hw, hk, hb, hl => by
+    simp only [wshEs, Bool.and_eq_true, Bool.or_eq_true, decide_eq_true_eq] at hw
+    simp only [keys, List.map_cons, List.nodup_cons] at hk
+    have ih := fun sl sb hb hl => mapSubs_filter L B d r sl sb hw.2 hk.2 hb hl
+    cases hp : phOf k x with
+    | none =>
+      rw [hp] at hw
+      rcases hw.1 with h1 | h1
+      · cases h1
+      · have e1 : topIds false ((k, Val.leaf x) :: r) = topIds false r := by simp only [topIds, hp, List.nil_append]
+        have e2 : topIds true ((k, Val.leaf x) :: r) = topIds true r := by simp only [topIds, hp, List.nil_append]
+        rw [e1] at hb; rw [e2] at hl
+        rw [e1, e2, filt_keep _ _ _ (by
+          show k ∉ _
+          simp only [List.mem_append, not_or]
+          exact ⟨dom_notMem_phKeys h1.1.1 false (dupFrom_le B (topIds_le false r) sb),
+            dom_notMem_phKeys h1.1.1 true (dupFrom_le L (topIds_le true r) sl)⟩)]
+        simp only [mapSubs, cleanT, hp]
+        rw [ih sl sb hb hl]
+    | some li =>
+      obtain ⟨l, i⟩ := li
+      obtain ⟨rfl, rfl, hi⟩ := phOf_some hp
+      have hkr : phKey l i ∉ keys r := hk.1
+      cases l with
+      | true =>
+        have e1 : topIds false ((Key.str (phWord true i), Val.leaf (.str (phWord true i))) :: r) = topIds false r := by
+          simp [topIds, hp]
+        have e2 : topIds true ((Key.str (phWord true i), Val.leaf (.str (phWord true i))) :: r) = i :: topIds true r := by
+          simp [topIds, hp]
+        rw [e1] at hb; rw [e2, List.nodup_cons] at hl
+        rw [e1, e2]
+        have hnb : phKey true i ∉ (dupFrom B sb (topIds false r)).map (phKey false) := by
+          intro hm
+          obtain ⟨j, hj, e⟩ := List.mem_map.mp hm
+          have := (phKey_inj (dupFrom_le B (topIds_le false r) sb j hj) hi e).1
+          cases this
+        have hnl : ∀ s', phKey true i ∉ (dupFrom L s' (topIds true r)).map (phKey true) := by
+          intro s' hm
+          obtain ⟨j, hj, e⟩ := List.mem_map.mp hm
+          have := (phKey_inj (dupFrom_le L (topIds_le true r) s' j hj) hi e).2
+          subst this
+          exact hl.1 (dupFrom_sub L _ s' _ hj)
+        cases hg : L.get? i with
+        | none =>
+          have ed : dupFrom L sl (i :: topIds true r) = dupFrom L sl (topIds true r) := by simp only [dupFrom, hg]
+          rw [ed, filt_keep _ _ _ (by
+            show phKey true i ∉ _
+            simp only [List.mem_append, not_or]; exact ⟨hnb, hnl sl⟩)]
+          simp only [mapSubs, cleanT, hp, hg]
+          rw [ih sl sb hb hl.2]
+        | some t =>
+          by_cases hc : sl.contains t = true
+          · have ed : dupFrom L sl (i :: topIds true r) = i :: dupFrom L sl (topIds true r) := by
+              simp only [dupFrom, hg, hc, if_true]
+            rw [ed, List.map_cons, filt_drop _ _ _ (by show phKey true i ∈ _; simp), filt_extra _ _ _ _ hkr]
+            simp only [cleanT, hp, hg, hc, if_true]
+            rw [ih sl sb hb hl.2]
+          · have hc' : sl.contains t = false := by simpa using hc
+            have ed : dupFrom L sl (i :: topIds true r) = dupFrom L (sl ++ [t]) (topIds true r) := by
+              simp only [dupFrom, hg, hc', Bool.false_eq_true, if_false]
+            rw [ed, filt_keep _ _ _ (by
+              show phKey true i ∉ _
+              simp only [List.mem_append, not_or]; exact ⟨hnb, hnl _⟩)]
+            simp only [mapSubs, cleanT, hp, hg, hc', Bool.false_eq_true, if_false]
+            rw [ih (sl ++ [t]) sb hb hl.2]
+      | false =>
+        have e1 : topIds false ((Key.str (phWord false i), Val.leaf (.str (phWord false i))) :: r) = i :: topIds false r := by
+          simp [topIds, hp]
+        have e2 : topIds true ((Key.str (phWord false i), Val.leaf (.str (phWord false i))) :: r) = topIds true r := by
+          simp [topIds, hp]
+        rw [e1, List.nodup_cons] at hb; rw [e2] at hl
+        rw [e1, e2]
+        have hnl : phKey false i ∉ (dupFrom L sl (topIds true r)).map (phKey true) := by
+          intro hm
+          obtain ⟨j, hj, e⟩ := List.mem_map.mp hm
+          have := (phKey_inj (dupFrom_le L (topIds_le true r) sl j hj) hi e).1
+          cases this
+        have hnb : ∀ s', phKey false i ∉ (dupFrom B s' (topIds false r)).map (phKey false) := by
+          intro s' hm
+          obtain ⟨j, hj, e⟩ := List.mem_map.mp hm
+          have := (phKey_inj (dupFrom_le B (topIds_le false r) s' j hj) hi e).2
+          subst this
+          exact hb.1 (dupFrom_sub B _ s' _ hj)
+        cases hg : B.get? i with
+        | none =>
+          have ed : dupFrom B sb (i :: topIds false r) = dupFrom B sb (topIds false r) := by simp only [dupFrom, hg]
+          rw [ed, filt_keep _ _ _ (by
+            show phKey false i ∉ _
+            simp only [List.mem_append, not_or]; exact ⟨hnb sb, hnl⟩)]
+          simp only [mapSubs, cleanT, hp, hg]
+          rw [ih sl sb hb.2 hl]
+        | some t =>
+          by_cases hc : sb.contains t = true
+          · have ed : dupFrom B sb (i :: topIds false r) = i :: dupFrom B sb (topIds false r) := by
+              simp only [dupFrom, hg, hc, if_true]
+            rw [ed, List.map_cons, filt_drop _ _ _ (by show phKey false i ∈ _; simp)]
+            have := filt_extra (phKey false i) [] ((dupFrom B sb (topIds false r)).map (phKey false) ++
+              (dupFrom L sl (topIds true r)).map (phKey true)) r hkr
+            simp only [List.nil_append, List.cons_append] at this ⊢
+            rw [this]
+            simp only [cleanT, hp, hg, hc, if_true]
+            rw [ih sl sb hb.2 hl]
+          · have hc' : sb.contains t = false := by simpa using hc
+            have ed : dupFrom B sb (i :: topIds false r) = dupFrom B (sb ++ [t]) (topIds false r) := by
+              simp only [dupFrom, hg, hc', Bool.false_eq_true, if_false]
+            rw [ed, filt_keep _ _ _ (by
+              show phKey false i ∉ _
+              simp only [List.mem_append, not_or]; exact ⟨hnb _, hnl⟩)]
+            simp only [mapSubs, cleanT, hp, hg, hc', Bool.false_eq_true, if_false]
+            rw [ih sl (sb ++ [t]) hb.2 hl]
+
+/-- the ids `_clean` removes below a level (in the order in which it removes them) -/
+def remSubs (l : Bool) (T : Tbl Str) : Entries → List Nat
+  | [] => []
+  | (_, .dict sub) :: r => (topDup l T sub ++ remSubs l T sub) ++ remSubs l T r
+  | (_, .leaf _) :: r => remSubs l T r
+  | (_, .list _) :: r => remSubs l T r
+
+/-- … at and below a level -/
+def remT (l : Bool) (T : Tbl Str) (D : Entries) : List Nat := topDup l T D ++ remSubs l T D
+
+/-- the SDict with comment entries removed from the two tables -/
+def afterDel (s : SD) (rb rl : List Nat) : SD := { s with blockC := delIds rb s.blockC, lineC := delIds rl s.lineC }
+
+theorem afterDel_afterDel (s : SD) (a b c d : List Nat) : afterDel (afterDel s a b) c d = afterDel s (a ++ c) (b ++ d) := by
+  simp only [afterDel, delIds_append]
+
+theorem top_sub_ids (l : Bool) : ∀ (D : Entries), ∀ i ∈ topIds l D, i ∈ idsT l D
+  | [], i, h => by simp [topIds] at h
+  | (k, .dict es) :: r, i, h => by
+    simp only [topIds] at h
+    simp only [idsT, List.mem_append]
+    exact Or.inr (top_sub_ids l r i h)
+  | (k, .list xs) :: r, i, h => by
+    simp only [topIds] at h
+    simp only [idsT]
+    exact top_sub_ids l r i h
+  | (k, .leaf x) :: r, i, h => by
+    simp only [topIds, List.mem_append] at h
+    simp only [idsT, List.mem_append]
+    exact h.imp id (top_sub_ids l r i)
+
+theorem topDup_sub (l : Bool) (T : Tbl Str) (D : Entries) : ∀ i ∈ topDup l T D, i ∈ idsT l D :=
+  fun i h => top_sub_ids l D i (dupFrom_sub T _ [] i h)
+
+theorem remSubs_sub (l : Bool) (T : Tbl Str) : ∀ (D : Entries), ∀ i ∈ remSubs l T D, i ∈ idsT l D
+  | [], i, h => by simp [remSubs] at h
+  | (k, .dict sub) :: r, i, h => by
+    simp only [remSubs, List.mem_append] at h
+    simp only [idsT, List.mem_append]
+    rcases h with (h | h) | h
+    · exact Or.inl (topDup_sub l T sub i h)
+    · exact Or.inl (remSubs_sub l T sub i h)
+    · exact Or.inr (remSubs_sub l T r i h)
+  | (k, .list xs) :: r, i, h => by
+    simp only [remSubs] at h
+    simp only [idsT]
+    exact remSubs_sub l T r i h
+  | (k, .leaf x) :: r, i, h => by
+    simp only [remSubs] at h
+    simp only [idsT, List.mem_append]
+    exact Or.inr (remSubs_sub l T r i h)
+
+theorem remT_sub (l : Bool) (T : Tbl Str) (D : Entries) : ∀ i ∈ remT l T D, i ∈ idsT l D := by
+  intro i h
+  rcases List.mem_append.mp h with h | h
+  · exact topDup_sub l T D i h
+  · exact remSubs_sub l T D i h
+
+theorem topDup_congr (l : Bool) {T T' : Tbl Str} (D : Entries) (h : ∀ i ∈ idsT l D, T'.get? i = T.get? i) :
+    topDup l T' D = topDup l T D :=
+  dupFrom_congr _ _ fun i hi => h i (top_sub_ids l D i hi)
+
+theorem remSubs_congr (l : Bool) {T T' : Tbl Str} : ∀ (D : Entries), (∀ i ∈ idsT l D, T'.get? i = T.get? i) →
+    remSubs l T' D = remSubs l T D
+  | [], _ => by simp [remSubs]
+  | (k, .dict sub) :: r, h => by
+    simp only [idsT, List.mem_append] at h
+    simp only [remSubs, topDup_congr l sub (fun i hi => h i (Or.inl hi)), remSubs_congr l sub (fun i hi => h i (Or.inl hi)),
+      remSubs_congr l r (fun i hi => h i (Or.inr hi))]
+  | (k, .list xs) :: r, h => by
+    simp only [idsT] at h
+    simp only [remSubs, remSubs_congr l r h]
+  | (k, .leaf x) :: r, h => by
+    simp only [idsT, List.mem_append] at h
+    simp only [remSubs, remSubs_congr l r (fun i hi => h i (Or.inr hi))]
+
+theorem remT_congr (l : Bool) {T T' : Tbl Str} (D : Entries) (h : ∀ i ∈ idsT l D, T'.get? i = T.get? i) :
+    remT l T' D = remT l T D := by
+  simp only [remT, topDup_congr l D h, remSubs_congr l D h]
+
+theorem cleanT_congr {L L' B B' : Tbl Str} : ∀ (D : Entries) (sl sb : List Str),
+    (∀ i ∈ idsT true D, L'.get? i = L.get? i) → (∀ i ∈ idsT false D, B'.get? i = B.get? i) →
+    cleanT L' B' sl sb D = cleanT L B sl sb D
+  | [], _, _, _, _ => by simp [cleanT]
+  | (k, .dict es) :: r, sl, sb, hL, hB => by
+    simp only [idsT, List.mem_append] at hL hB
+    simp only [cleanT, cleanT_congr es [] [] (fun i hi => hL i (Or.inl hi)) (fun i hi => hB i (Or.inl hi)),
+      cleanT_congr r sl sb (fun i hi => hL i (Or.inr hi)) (fun i hi => hB i (Or.inr hi))]
+  | (k, .list xs) :: r, sl, sb, hL, hB => by
+    simp only [idsT] at hL hB
+    simp only [cleanT, cleanT_congr r sl sb hL hB]
+  | (k, .leaf x) :: r, sl, sb, hL, hB => by
+    simp only [idsT, List.mem_append] at hL hB
+    have ih := fun sl sb => cleanT_congr r sl sb (fun i hi => hL i (Or.inr hi)) (fun i hi => hB i (Or.inr hi))
+    cases hp : phOf k x with
+    | none => simp only [cleanT, hp, ih]
+    | some li =>
+      obtain ⟨l, i⟩ := li
+      cases l with
+      | true =>
+        have : L'.get? i = L.get? i := hL i (Or.inl (by simp [hp]))
+        simp only [cleanT, hp, this, ih]
+      | false =>
+        have : B'.get? i = B.get? i := hB i (Or.inl (by simp [hp]))
+        simp only [cleanT, hp, this, ih]
+
+theorem depth_filter (p : Key × Val → Bool) : ∀ (D : Entries), depthV.depthEs (D.filter p) ≤ depthV.depthEs D
+  | [] => by simp [depthV.depthEs]
+  | (k, v) :: r => by
+    have ih := depth_filter p r
+    simp only [List.filter_cons]
+    split
+    · simp only [depthV.depthEs]; omega
+    · simp only [depthV.depthEs]; omega
+
+theorem allLevels_filter {P : Entries → Prop} (p : Key × Val → Bool) : ∀ (D : Entries), allLevels P D →
+    allLevels P (D.filter p)
+  | [], _ => by simp [allLevels]
+  | (k, .dict es) :: r, h => by
+    simp only [allLevels] at h
+    simp only [List.filter_cons]
+    split
+    · simp only [allLevels]; exact ⟨h.1, allLevels_filter p r h.2⟩
+    · exact allLevels_filter p r h.2
+  | (k, .leaf x) :: r, h => by
+    simp only [allLevels] at h
+    simp only [List.filter_cons]
+    split
+    · simp only [allLevels]; exact allLevels_filter p r h
+    · exact allLevels_filter p r h
+  | (k, .list xs) :: r, h => by
+    simp only [allLevels] at h
+    simp only [List.filter_cons]
+    split
+    · simp only [allLevels]; exact allLevels_filter p r h
+    · exact allLevels_filter p r h
+
+theorem idsT_filter_sublist (l : Bool) (p : Key × Val → Bool) : ∀ (D : Entries),
+    (idsT l (D.filter p)).Sublist (idsT l D)
+  | [] => by simp [idsT]
+  | (k, .dict es) :: r => by
+    have ih := idsT_filter_sublist l p r
+    simp only [List.filter_cons]
+    split
+    · simp only [idsT]; exact (List.Sublist.refl _).append ih
+    · simp only [idsT]; exact ih.trans (List.sublist_append_right _ _)
+  | (k, .list xs) :: r => by
+    have ih := idsT_filter_sublist l p r
+    simp only [List.filter_cons]
+    split
+    · simp only [idsT]; exact ih
+    · simp only [idsT]; exact ih
+  | (k, .leaf x) :: r => by
+    have ih := idsT_filter_sublist l p r
+    simp only [List.filter_cons]
+    split
+    · simp only [idsT]; exact (List.Sublist.refl _).append ih
+    · simp only [idsT]; exact ih.trans (List.sublist_append_right _ _)
+
+/-- dropping comment entries of the level does not touch its sub-dicts -/
+theorem remSubs_filter (l : Bool) (T : Tbl Str) (d : Nat) (ks : List Key)
+    (hks : ∀ k, isDomKey k = true → k ∉ ks) : ∀ (D : Entries), wshEs d D = true →
+    remSubs l T (D.filter fun e => e.1 ∉ ks) = remSubs l T D
+  | [], _ => rfl
+  | (k, .dict es) :: r, h => by
+    simp only [wshEs, Bool.and_eq_true] at h
+    rw [filt_keep _ _ _ (hks k h.1.1)]
+    simp only [remSubs, remSubs_filter l T d ks hks r h.2]
+  | (k, .list xs) :: r, h => by
+    simp only [wshEs, Bool.and_eq_true] at h
+    rw [filt_keep _ _ _ (hks k h.1.1)]
+    simp only [remSubs, remSubs_filter l T d ks hks r h.2]
+  | (k, .leaf x) :: r, h => by
+    simp only [wshEs, Bool.and_eq_true] at h
+    have ih := remSubs_filter l T d ks hks r h.2
+    by_cases hk : k ∈ ks
+    · rw [filt_drop _ _ _ hk]; simp only [remSubs, ih]
+    · rw [filt_keep _ _ _ hk]; simp only [remSubs, ih]
+
+/-- an id whose entry is dropped at the top of the level does not occur in what is left -/
+theorem idsT_dropped (l : Bool) (d : Nat) (ks : List Key) {i : Nat} (hin : phKey l i ∈ ks) : ∀ (D : Entries),
+    wshEs d D = true → (idsT l D).Nodup → i ∈ topIds l D → i ∉ idsT l (D.filter fun e => e.1 ∉ ks)
+  | [], _, _, h => by simp [topIds] at h
+  | (k, .dict es) :: r, hw, hnd, h => by
+    simp only [wshEs, Bool.and_eq_true] at hw
+    simp only [idsT] at hnd
+    simp only [topIds] at h
+    have hnd' := List.nodup_append.mp hnd
+    have ih := idsT_dropped l d ks hin r hw.2 hnd'.2.1 h
+    have hi_r : i ∈ idsT l r := top_sub_ids l r i h
+    have hi_es : i ∉ idsT l es := fun hm => hnd'.2.2 i hm i hi_r rfl
+    simp only [List.filter_cons]
+    split
+    · simp only [idsT, List.mem_append, not_or]; exact ⟨hi_es, ih⟩
+    · exact ih
+  | (k, .list xs) :: r, hw, hnd, h => by
+    simp only [wshEs, Bool.and_eq_true] at hw
+    simp only [idsT] at hnd
+    simp only [topIds] at h
+    have ih := idsT_dropped l d ks hin r hw.2 hnd h
+    simp only [List.filter_cons]
+    split
+    · simp only [idsT]; exact ih
+    · exact ih
+  | (k, .leaf x) :: r, hw, hnd, h => by
+    simp only [wshEs, Bool.and_eq_true] at hw
+    simp only [idsT] at hnd
+    simp only [topIds, List.mem_append] at h
+    have hnd' := List.nodup_append.mp hnd
+    cases hp : phOf k x with
+    | none =>
+      rw [hp] at h
+      simp only [List.not_mem_nil, false_or] at h
+      have ih := idsT_dropped l d ks hin r hw.2 hnd'.2.1 h
+      simp only [List.filter_cons]
+      split
+      · simp only [idsT, hp, List.nil_append]; exact ih
+      · exact ih
+    | some li =>
+      obtain ⟨l', j⟩ := li
+      obtain ⟨hk, _, hj⟩ := phOf_some hp
+      rw [hp] at h hnd hnd'
+      by_cases hlj : l' = l ∧ j = i
+      · obtain ⟨rfl, rfl⟩ := hlj
+        have hdrop : k ∈ ks := by rw [hk]; exact hin
+        rw [filt_drop _ _ _ hdrop]
+        simp only [if_true] at hnd'
+        intro hm
+        have := (idsT_filter_sublist l' (fun e => decide (e.1 ∉ ks)) r).subset hm
+        exact hnd'.2.2 j (by simp) j this rfl
+      · have hir : i ∈ topIds l r := by
+          rcases h with h | h
+          · simp only at h
+            split at h
+            · next e => simp only [List.mem_singleton] at h; exact absurd ⟨e, h.symm⟩ hlj
+            · simp at h
+          · exact h
+        have ih := idsT_dropped l d ks hin r hw.2 hnd'.2.1 hir
+        simp only [List.filter_cons]
+        split
+        · simp only [idsT, hp, List.mem_append, not_or]
+          refine ⟨?_, ih⟩
+          split
+          · next e => simp only [List.mem_singleton]; exact fun e2 => hlj ⟨e, e2.symm⟩
+          · simp
+        · exact ih
+
+theorem afterDel_nil (s : SD) : afterDel s [] [] = s := by cases s; rfl
+
+theorem subsRec_gen (fuel : Nat)
+    (IH : ∀ (s : SD) (D : Entries) (d : Nat), depthV.depthEs D < fuel → wshEs d D = true → KNodup D →
+      allLevels KNodup D → (idsT false D).Nodup → (idsT true D).Nodup →
+      cleanRec fuel s D = (afterDel s (remT false s.blockC D) (remT true s.lineC D), cleanT s.lineC s.blockC [] [] D))
+    (L0 B0 : Tbl Str) : ∀ (E : Entries) (t : SD) (d : Nat), depthV.depthEs E ≤ fuel → wshEs d E = true →
+      allLevels KNodup E → (idsT false E).Nodup → (idsT true E).Nodup →
+      (∀ i ∈ idsT false E, t.blockC.get? i = B0.get? i) → (∀ i ∈ idsT true E, t.lineC.get? i = L0.get? i) →
+      subsRec fuel t E = (afterDel t (remSubs false B0 E) (remSubs true L0 E), mapSubs (cleanT L0 B0 [] []) E)
+  | [], t, _, _, _, _, _, _, _, _ => by simp [subsRec, remSubs, mapSubs, afterDel_nil]
+  | (k, .leaf x) :: r, t, d, hd, hw, hal, hb, hl, hB, hL => by
+    simp only [wshEs, Bool.and_eq_true] at hw
+    simp only [depthV.depthEs] at hd
+    simp only [allLevels] at hal
+    simp only [idsT] at hb hl hB hL
+    have ih := subsRec_gen fuel IH L0 B0 r t d (by omega) hw.2 hal (List.nodup_append.mp hb).2.1
+      (List.nodup_append.mp hl).2.1 (fun i hi => hB i (List.mem_append_right _ hi))
+      (fun i hi => hL i (List.mem_append_right _ hi))
+    simp only [subsRec, ih, remSubs, mapSubs]
+  | (k, .list xs) :: r, t, d, hd, hw, hal, hb, hl, hB, hL => by
+    simp only [wshEs, Bool.and_eq_true] at hw
+    simp only [depthV.depthEs] at hd
+    simp only [allLevels] at hal
+    simp only [idsT] at hb hl hB hL
+    have ih := subsRec_gen fuel IH L0 B0 r t d (by omega) hw.2 hal hb hl hB hL
+    simp only [subsRec, ih, remSubs, mapSubs]
+  | (k, .dict sub) :: r, t, d, hd, hw, hal, hb, hl, hB, hL => by
+    simp only [wshEs, Bool.and_eq_true] at hw
+    simp only [depthV.depthEs, depthV] at hd
+    simp only [allLevels] at hal
+    simp only [idsT] at hb hl hB hL
+    have hb' := List.nodup_append.mp hb
+    have hl' := List.nodup_append.mp hl
+    have hBs : ∀ i ∈ idsT false sub, t.blockC.get? i = B0.get? i := fun i hi => hB i (List.mem_append_left _ hi)
+    have hLs : ∀ i ∈ idsT true sub, t.lineC.get? i = L0.get? i := fun i hi => hL i (List.mem_append_left _ hi)
+    have hsub := IH t sub (d + 1) (by omega) hw.1.2 hal.1.1 hal.1.2 hb'.1 hl'.1
+    rw [remT_congr false sub hBs, remT_congr true sub hLs, cleanT_congr sub [] [] hLs hBs] at hsub
+    have ih := subsRec_gen fuel IH L0 B0 r (afterDel t (remT false B0 sub) (remT true L0 sub)) d (by omega) hw.2 hal.2
+      hb'.2.1 hl'.2.1
+      (by
+        intro i hi
+        show (delIds (remT false B0 sub) t.blockC).get? i = _
+        rw [get_delIds _ _ (fun hm => hb'.2.2 i (remT_sub false B0 sub i hm) i hi rfl)]
+        exact hB i (List.mem_append_right _ hi))
+      (by
+        intro i hi
+        show (delIds (remT true L0 sub) t.lineC).get? i = _
+        rw [get_delIds _ _ (fun hm => hl'.2.2 i (remT_sub true L0 sub i hm) i hi rfl)]
+        exact hL i (List.mem_append_right _ hi))
+    have e1 : subsRec fuel t ((k, Val.dict sub) :: r) =
+        ((subsRec fuel (cleanRec fuel t sub).1 r).1,
+          (k, .dict (cleanRec fuel t sub).2) :: (subsRec fuel (cleanRec fuel t sub).1 r).2) := by
+      simp only [subsRec]
+    rw [e1, hsub]
+    simp only []
+    rw [ih, afterDel_afterDel]
+    simp only [remSubs, mapSubs, remT]
+
+/-- **`_clean` in general.**  On a tree of the shape `wshEs` whose keys are pairwise distinct at every level and whose
+    comment ids are pairwise distinct, `_clean` returns the specification `cleanT` and deletes the ids of the dropped
+    entries from the two tables (enough fuel: more than the depth of the tree) -/
+theorem cleanRec_gen : ∀ (fuel : Nat) (s : SD) (D : Entries) (d : Nat), depthV.depthEs D < fuel → wshEs d D = true →
+    KNodup D → allLevels KNodup D → (idsT false D).Nodup → (idsT true D).Nodup →
+    cleanRec fuel s D = (afterDel s (remT false s.blockC D) (remT true s.lineC D), cleanT s.lineC s.blockC [] [] D)
+  | 0, _, _, _, h, _, _, _, _, _ => by omega
+  | fuel + 1, s, D, d, hd, hw, hk, hal, hb, hl => by
+    have htb : (topIds false D).Nodup := by
+      have : (topIds false D).Sublist (idsT false D) := by
+        clear hd hw hk hal hb hl
+        induction D with
+        | nil => simp [topIds]
+        | cons e D ih =>
+          obtain ⟨k, v⟩ := e
+          cases v with
+          | leaf x => simp only [topIds, idsT]; exact (List.Sublist.refl _).append ih
+          | dict es => simp only [topIds, idsT]; exact ih.trans (List.sublist_append_right _ _)
+          | list xs => simp only [topIds, idsT]; exact ih
+      exact this.nodup hb
+    have htl : (topIds true D).Nodup := by
+      have : (topIds true D).Sublist (idsT true D) := by
+        clear hd hw hk hal hb hl htb
+        induction D with
+        | nil => simp [topIds]
+        | cons e D ih =>
+          obtain ⟨k, v⟩ := e
+          cases v with
+          | leaf x => simp only [topIds, idsT]; exact (List.Sublist.refl _).append ih
+          | dict es => simp only [topIds, idsT]; exact ih.trans (List.sublist_append_right _ _)
+          | list xs => simp only [topIds, idsT]; exact ih
+      exact this.nodup hl
+    have hlev := cleanLevel_gen s d D hw hk htb htl
+    have hks : ∀ k, isDomKey k = true → k ∉ topKeys s D := by
+      intro k hkd
+      simp only [topKeys, List.mem_append, not_or]
+      exact ⟨dom_notMem_phKeys hkd false (dupFrom_le _ (topIds_le false D) _),
+        dom_notMem_phKeys hkd true (dupFrom_le _ (topIds_le true D) _)⟩
+    rw [cleanRec_succ fuel s D (by rw [hlev]; exact keys_filter_nodup _ hk), hlev]
+    have hsubs := subsRec_gen fuel (fun s D d => cleanRec_gen fuel s D d) s.lineC s.blockC
+      (D.filter fun e => e.1 ∉ topKeys s D)
+      ({ s with blockC := delIds (topDup false s.blockC D) s.blockC, lineC := delIds (topDup true s.lineC D) s.lineC }) d
+      (by have := depth_filter (fun e => decide (e.1 ∉ topKeys s D)) D; omega)
+      (wshEs_filter d _ D hw) (allLevels_filter _ D hal)
+      ((idsT_filter_sublist false _ D).nodup hb) ((idsT_filter_sublist true _ D).nodup hl)
+      (by
+        intro i hi
+        show (delIds (topDup false s.blockC D) s.blockC).get? i = _
+        apply get_delIds
+        intro hm
+        exact idsT_dropped false d (topKeys s D)
+          (by simp only [topKeys, List.mem_append]; exact Or.inl (List.mem_map_of_mem hm)) D hw hb
+          (dupFrom_sub _ _ _ _ hm) hi)
+      (by
+        intro i hi
+        show (delIds (topDup true s.lineC D) s.lineC).get? i = _
+        apply get_delIds
+        intro hm
+        exact idsT_dropped true d (topKeys s D)
+          (by simp only [topKeys, List.mem_append]; exact Or.inr (List.mem_map_of_mem hm)) D hw hl
+          (dupFrom_sub _ _ _ _ hm) hi)
+    rw [hsubs, remSubs_filter false _ d _ hks D hw, remSubs_filter true _ d _ hks D hw]
+    have hm : mapSubs (cleanT s.lineC s.blockC [] []) (D.filter fun e => e.1 ∉ topKeys s D) =
+        cleanT s.lineC s.blockC [] [] D := mapSubs_filter s.lineC s.blockC d D [] [] hw hk htb htl
+    rw [hm]
+    show (afterDel (afterDel s _ _) _ _, _) = _
+    rw [afterDel_afterDel]
+    rfl
+
+/-! ### the ids of the tree of a commented document -/
+
+mutual
+  theorem idsT_treeV : ∀ (v : CSrc) (l1 ext : List Nat) (n d : Nat),
+      l1.length = (lineFullsV v).length → (∀ i ∈ l1, i ≤ 999999) → n + (blockFullsV v).length ≤ 1000000 →
+      okV d v = true →
+      (match v with
+       | .dict items => idsT false (dTreeI (l1 ++ ext) n items) = List.range' n (blockFullsI items).length ∧
+                        idsT true (dTreeI (l1 ++ ext) n items) = l1
+       | _ => True)
+    | .lit l, _, _, _, _, _, _, _, _ => trivial
+    | .list xs, _, _, _, _, _, _, _, _ => trivial
+    | .dict items, l1, ext, n, d, hl, hi, hn, hok => by
+      simp only [lineFullsV, blockFullsV, okV] at hl hn hok
+      exact idsT_treeI items l1 ext n (d + 1) hl hi hn hok
+  /-- the comment ids of the tree, in document order: the block ids are consecutive, the line ids are the ids drawn -/
+  theorem idsT_treeI : ∀ (items : List CItem) (l1 ext : List Nat) (n d : Nat),
+      l1.length = (lineFullsI items).length → (∀ i ∈ l1, i ≤ 999999) → n + (blockFullsI items).length ≤ 1000000 →
+      okI d items = true →
+      idsT false (dTreeI (l1 ++ ext) n items) = List.range' n (blockFullsI items).length ∧
+      idsT true (dTreeI (l1 ++ ext) n items) = l1
+    | [], l1, _, _, _, hl, _, _, _ => by
+      simp only [lineFullsI, List.length_nil] at hl
+      simp [dTreeI, idsT, blockFullsI, List.eq_nil_of_length_eq_zero hl]
+    | .entry k v :: r, l1, ext, n, d, hl, hi, hn, hok => by
+      simp only [lineFullsI, blockFullsI, List.length_append, okI, Bool.and_eq_true] at hl hn hok ⊢
+      obtain ⟨la, lb, rfl, hla⟩ : ∃ la lb, l1 = la ++ lb ∧ la.length = (lineFullsV v).length :=
+        ⟨l1.take (lineFullsV v).length, l1.drop (lineFullsV v).length, (List.take_append_drop _ _).symm,
+          by rw [List.length_take]; omega⟩
+      have hlb : lb.length = (lineFullsI r).length := by simp only [List.length_append] at hl; omega
+      have hdrop : (la ++ lb ++ ext).drop (lineFullsV v).length = lb ++ ext := by
+        rw [List.append_assoc, List.drop_left' hla]
+      have ihr := idsT_treeI r lb ext (n + (blockFullsV v).length) d hlb
+        (fun i h => hi i (List.mem_append_right _ h)) (by omega) hok.2
+      have ihv := idsT_treeV v la (lb ++ ext) n d hla (fun i h => hi i (List.mem_append_left _ h)) (by omega) hok.1.2
+      simp only [dTreeI, hdrop]
+      have hph : ∀ x, phOf (keyOfStr k) x = none := phOf_dom hok.1.1
+      cases v with
+      | lit l =>
+        have hla0 : la = [] := List.eq_nil_of_length_eq_zero (by simpa [lineFullsV] using hla)
+        subst hla0
+        simp only [dTreeV, idsT, hph, blockFullsV, List.length_nil, Nat.add_zero, Nat.zero_add, List.nil_append] at ihr ⊢
+        exact ihr
+      | list xs =>
+        have hla0 : la = [] := List.eq_nil_of_length_eq_zero (by simpa [lineFullsV] using hla)
+        subst hla0
+        simp only [dTreeV, idsT, blockFullsV, List.length_nil, Nat.add_zero, Nat.zero_add, List.nil_append] at ihr ⊢
+        exact ihr
+      | dict items =>
+        simp only [List.append_assoc] at ihv ⊢
+        simp only [dTreeV, idsT, blockFullsV] at ihr ⊢
+        rw [ihv.1, ihv.2, ihr.1, ihr.2, ← List.range'_append_1]
+        exact ⟨rfl, rfl⟩
+    | .lineC x :: r, l1, ext, n, d, hl, hi, hn, hok => by
+      simp only [lineFullsI, blockFullsI, List.length_cons, okI, Bool.and_eq_true] at hl hn hok ⊢
+      cases l1 with
+      | nil => simp at hl
+      | cons i l1 =>
+        simp only [List.length_cons, Nat.add_right_cancel_iff] at hl
+        have ihr := idsT_treeI r l1 ext n d hl (fun j h => hi j (List.mem_cons_of_mem _ h)) hn hok.2
+        simp only [List.cons_append, dTreeI, List.headD_cons, List.tail_cons, phEntry, idsT,
+          phOf_ph true (hi i List.mem_cons_self), ihr.1, ihr.2]
+        simp
+    | .blockC x :: r, l1, ext, n, d, hl, hi, hn, hok => by
+      simp only [lineFullsI, blockFullsI, List.length_cons, okI, Bool.and_eq_true] at hl hn hok ⊢
+      have ihr := idsT_treeI r l1 ext (n + 1) d hl hi (by omega) hok.2
+      have hnn : n ≤ 999999 := by omega
+      simp only [dTreeI, phEntry, idsT, phOf_ph false hnn, ihr.1, ihr.2]
+      simp [List.range'_succ]
+end
+
+/-! ### what is left after `_clean` -/
+
+theorem wsh_cleanT (L B : Tbl Str) : ∀ (d : Nat) (D : Entries) (sl sb : List Str), wshEs d D = true →
+    wshEs d (cleanT L B sl sb D) = true
+  | _, [], _, _, _ => by simp [cleanT, wshEs]
+  | d, (k, .dict es) :: r, sl, sb, h => by
+    simp only [wshEs, Bool.and_eq_true] at h
+    simp only [cleanT, wshEs, Bool.and_eq_true]
+    exact ⟨⟨h.1.1, wsh_cleanT L B (d + 1) es [] [] h.1.2⟩, wsh_cleanT L B d r sl sb h.2⟩
+  | d, (k, .list xs) :: r, sl, sb, h => by
+    simp only [wshEs, Bool.and_eq_true] at h
+    simp only [cleanT, wshEs, Bool.and_eq_true]
+    exact ⟨h.1, wsh_cleanT L B d r sl sb h.2⟩
+  | d, (k, .leaf x) :: r, sl, sb, h => by
+    simp only [wshEs, Bool.and_eq_true] at h
+    have ih := fun sl sb => wsh_cleanT L B d r sl sb h.2
+    have keep : ∀ sl sb, wshEs d ((k, .leaf x) :: cleanT L B sl sb r) = true := by
+      intro sl sb
+      simp only [wshEs, Bool.and_eq_true]
+      exact ⟨h.1, ih sl sb⟩
+    simp only [cleanT]
+    split
+    · split
+      · exact keep _ _
+      · split
+        · exact ih _ _
+        · exact keep _ _
+    · split
+      · exact keep _ _
+      · split
+        · exact ih _ _
+        · exact keep _ _
+    · exact keep _ _
+
+theorem ids_cleanT_sublist (L B : Tbl Str) (l : Bool) : ∀ (D : Entries) (sl sb : List Str),
+    (idsT l (cleanT L B sl sb D)).Sublist (idsT l D)
+  | [], _, _ => by simp [cleanT, idsT]
+  | (k, .dict es) :: r, sl, sb => by
+    simp only [cleanT, idsT]
+    exact (ids_cleanT_sublist L B l es [] []).append (ids_cleanT_sublist L B l r sl sb)
+  | (k, .list xs) :: r, sl, sb => by
+    simp only [cleanT, idsT]
+    exact ids_cleanT_sublist L B l r sl sb
+  | (k, .leaf x) :: r, sl, sb => by
+    have ih := fun sl sb => ids_cleanT_sublist L B l r sl sb
+    have keep : ∀ sl sb, (idsT l ((k, .leaf x) :: cleanT L B sl sb r)).Sublist (idsT l ((k, .leaf x) :: r)) := by
+      intro sl sb
+      simp only [idsT]
+      exact (List.Sublist.refl _).append (ih sl sb)
+    have drop : ∀ sl sb, (idsT l (cleanT L B sl sb r)).Sublist (idsT l ((k, .leaf x) :: r)) := by
+      intro sl sb
+      simp only [idsT]
+      exact (ih sl sb).trans (List.sublist_append_right _ _)
+    simp only [cleanT]
+    split
+    · split
+      · exact keep _ _
+      · split
+        · exact drop _ _
+        · exact keep _ _
+    · split
+      · exact keep _ _
+      · split
+        · exact drop _ _
+        · exact keep _ _
+    · exact keep _ _
+
+/-- the ids of kind block that are left are exactly those that were not removed -/
+theorem part_block (L B : Tbl Str) : ∀ (D : Entries) (sl sb : List Str), (idsT false D).Nodup → ∀ i ∈ idsT false D,
+    (i ∈ idsT false (cleanT L B sl sb D) ↔ i ∉ dupFrom B sb (topIds false D) ++ remSubs false B D)
+  | [], _, _, _, i, hi => by simp [idsT] at hi
+  | (k, .dict es) :: r, sl, sb, hnd, i, hi => by
+    simp only [idsT] at hnd hi
+    have hnd' := List.nodup_append.mp hnd
+    have ihe := part_block L B es [] [] hnd'.1
+    have ihr := part_block L B r sl sb hnd'.2.1
+    have hsubr : ∀ j ∈ dupFrom B sb (topIds false r) ++ remSubs false B r, j ∈ idsT false r := by
+      intro j hj
+      rcases List.mem_append.mp hj with h | h
+      · exact top_sub_ids false r j (dupFrom_sub _ _ _ j h)
+      · exact remSubs_sub false B r j h
+    have hsube : ∀ j ∈ dupFrom B [] (topIds false es) ++ remSubs false B es, j ∈ idsT false es := by
+      intro j hj
+      rcases List.mem_append.mp hj with h | h
+      · exact top_sub_ids false es j (dupFrom_sub _ _ _ j h)
+      · exact remSubs_sub false B es j h
+    simp only [cleanT, idsT, topIds, remSubs, topDup, List.mem_append]
+    rcases List.mem_append.mp hi with hie | hir
+    · have hnr : i ∉ idsT false r := fun h => hnd'.2.2 i hie i h rfl
+      have h1 : i ∉ idsT false (cleanT L B sl sb r) := fun h => hnr ((ids_cleanT_sublist L B false r sl sb).subset h)
+      have h2 : i ∉ dupFrom B sb (topIds false r) := fun h => hnr (hsubr i (List.mem_append_left _ h))
+      have h3 : i ∉ remSubs false B r := fun h => hnr (hsubr i (List.mem_append_right _ h))
+      have := ihe i hie
+      simp only [List.mem_append] at this
+      constructor
+      · rintro (h | h)
+        · rintro (h' | (h' | h') | h')
+          · exact h2 h'
+          · exact this.mp h (Or.inl h')
+          · exact this.mp h (Or.inr h')
+          · exact h3 h'
+        · exact absurd h h1
+      · intro h
+        exact Or.inl (this.mpr fun h' => h (h'.elim (fun a => Or.inr (Or.inl (Or.inl a))) (fun a => Or.inr (Or.inl (Or.inr a)))))
+    · have hne : i ∉ idsT false es := fun h => hnd'.2.2 i h i hir rfl
+      have h1 : i ∉ idsT false (cleanT L B [] [] es) := fun h => hne ((ids_cleanT_sublist L B false es [] []).subset h)
+      have h2 : i ∉ dupFrom B [] (topIds false es) := fun h => hne (hsube i (List.mem_append_left _ h))
+      have h3 : i ∉ remSubs false B es := fun h => hne (hsube i (List.mem_append_right _ h))
+      have := ihr i hir
+      simp only [List.mem_append] at this
+      constructor
+      · rintro (h | h)
+        · exact absurd h h1
+        · rintro (h' | (h' | h') | h')
+          · exact this.mp h (Or.inl h')
+          · exact h2 h'
+          · exact h3 h'
+          · exact this.mp h (Or.inr h')
+      · intro h
+        exact Or.inr (this.mpr fun h' => h (h'.elim (fun a => Or.inl a) (fun a => Or.inr (Or.inr a))))
+  | (k, .list xs) :: r, sl, sb, hnd, i, hi => by
+    simp only [idsT] at hnd hi
+    simp only [cleanT, idsT, topIds, remSubs]
+    exact part_block L B r sl sb hnd i hi
+  | (k, .leaf x) :: r, sl, sb, hnd, i, hi => by
+    have ih := fun sl sb hnd => part_block L B r sl sb hnd
+    have hsubr : ∀ s' j, j ∈ dupFrom B s' (topIds false r) ++ remSubs false B r → j ∈ idsT false r := by
+      intro s' j hj
+      rcases List.mem_append.mp hj with h | h
+      · exact top_sub_ids false r j (dupFrom_sub _ _ _ j h)
+      · exact remSubs_sub false B r j h
+    cases hp : phOf k x with
+    | none =>
+      simp only [idsT, hp, List.nil_append] at hnd hi
+      simp only [cleanT, hp, idsT, topIds, remSubs, List.nil_append]
+      exact ih sl sb hnd i hi
+    | some li =>
+      obtain ⟨l, j⟩ := li
+      cases l with
+      | true =>
+        simp only [idsT, hp, Bool.true_eq_false, if_false, List.nil_append] at hnd hi
+        simp only [cleanT, hp, topIds, remSubs, Bool.true_eq_false, if_false, List.nil_append]
+        cases hg : L.get? j with
+        | none => simp only [idsT, hp, Bool.true_eq_false, if_false, List.nil_append]; exact ih sl sb hnd i hi
+        | some t =>
+          simp only []
+          split
+          · exact ih _ _ hnd i hi
+          · simp only [idsT, hp, Bool.true_eq_false, if_false, List.nil_append]; exact ih _ _ hnd i hi
+      | false =>
+        simp only [idsT, hp, if_true, List.singleton_append, List.nodup_cons] at hnd hi
+        have hjr : ∀ s', j ∉ dupFrom B s' (topIds false r) ++ remSubs false B r := fun s' h => hnd.1 (hsubr s' j h)
+        simp only [cleanT, hp, topIds, remSubs, if_true, List.singleton_append]
+        cases hg : B.get? j with
+        | none =>
+          simp only [dupFrom, hg, idsT, hp, if_true, List.singleton_append, List.mem_cons]
+          rcases List.mem_cons.mp hi with rfl | hir
+          · exact ⟨fun _ => hjr sb, fun _ => Or.inl rfl⟩
+          · have hne : i ≠ j := fun e => hnd.1 (e ▸ hir)
+            have := ih sl sb hnd.2 i hir
+            constructor
+            · rintro (h | h)
+              · exact absurd h hne
+              · exact this.mp h
+            · exact fun h => Or.inr (this.mpr h)
+        | some t =>
+          by_cases hc : sb.contains t = true
+          · simp only [dupFrom, hg, hc, if_true, List.cons_append, List.mem_cons, not_or]
+            rcases List.mem_cons.mp hi with rfl | hir
+            · constructor
+              · intro h
+                exact absurd ((ids_cleanT_sublist L B false r sl sb).subset h) hnd.1
+              · intro h; exact absurd rfl h.1
+            · have hne : i ≠ j := fun e => hnd.1 (e ▸ hir)
+              have := ih sl sb hnd.2 i hir
+              exact ⟨fun h => ⟨hne, this.mp h⟩, fun h => this.mpr h.2⟩
+          · have hc' : sb.contains t = false := by simpa using hc
+            simp only [dupFrom, hg, hc', Bool.false_eq_true, if_false, idsT, hp, if_true, List.singleton_append,
+              List.mem_cons]
+            rcases List.mem_cons.mp hi with rfl | hir
+            · exact ⟨fun _ => hjr _, fun _ => Or.inl rfl⟩
+            · have hne : i ≠ j := fun e => hnd.1 (e ▸ hir)
+              have := ih sl (sb ++ [t]) hnd.2 i hir
+              constructor
+              · rintro (h | h)
+                · exact absurd h hne
+                · exact this.mp h
+              · exact fun h => Or.inr (this.mpr h)
+
+/-- the ids of kind line that are left are exactly those that were not removed -/
+theorem part_line (L B : Tbl Str) : ∀ (D : Entries) (sl sb : List Str), (idsT true D).Nodup → ∀ i ∈ idsT true D,
+    (i ∈ idsT true (cleanT L B sl sb D) ↔ i ∉ dupFrom L sl (topIds true D) ++ remSubs true L D)
+  | [], _, _, _, i, hi => by simp [idsT] at hi
+  | (k, .dict es) :: r, sl, sb, hnd, i, hi => by
+    simp only [idsT] at hnd hi
+    have hnd' := List.nodup_append.mp hnd
+    have ihe := part_line L B es [] [] hnd'.1
+    have ihr := part_line L B r sl sb hnd'.2.1
+    have hsubr : ∀ j ∈ dupFrom L sl (topIds true r) ++ remSubs true L r, j ∈ idsT true r := by
+      intro j hj
+      rcases List.mem_append.mp hj with h | h
+      · exact top_sub_ids true r j (dupFrom_sub _ _ _ j h)
+      · exact remSubs_sub true L r j h
+    have hsube : ∀ j ∈ dupFrom L [] (topIds true es) ++ remSubs true L es, j ∈ idsT true es := by
+      intro j hj
+      rcases List.mem_append.mp hj with h | h
+      · exact top_sub_ids true es j (dupFrom_sub _ _ _ j h)
+      · exact remSubs_sub true L es j h
+    simp only [cleanT, idsT, topIds, remSubs, topDup, List.mem_append]
+    rcases List.mem_append.mp hi with hie | hir
+    · have hnr : i ∉ idsT true r := fun h => hnd'.2.2 i hie i h rfl
+      have h1 : i ∉ idsT true (cleanT L B sl sb r) := fun h => hnr ((ids_cleanT_sublist L B true r sl sb).subset h)
+      have h2 : i ∉ dupFrom L sl (topIds true r) := fun h => hnr (hsubr i (List.mem_append_left _ h))
+      have h3 : i ∉ remSubs true L r := fun h => hnr (hsubr i (List.mem_append_right _ h))
+      have := ihe i hie
+      simp only [List.mem_append] at this
+      constructor
+      · rintro (h | h)
+        · rintro (h' | (h' | h') | h')
+          · exact h2 h'
+          · exact this.mp h (Or.inl h')
+          · exact this.mp h (Or.inr h')
+          · exact h3 h'
+        · exact absurd h h1
+      · intro h
+        exact Or.inl (this.mpr fun h' => h (h'.elim (fun a => Or.inr (Or.inl (Or.inl a))) (fun a => Or.inr (Or.inl (Or.inr a)))))
+    · have hne : i ∉ idsT true es := fun h => hnd'.2.2 i h i hir rfl
+      have h1 : i ∉ idsT true (cleanT L B [] [] es) := fun h => hne ((ids_cleanT_sublist L B true es [] []).subset h)
+      have h2 : i ∉ dupFrom L [] (topIds true es) := fun h => hne (hsube i (List.mem_append_left _ h))
+      have h3 : i ∉ remSubs true L es := fun h => hne (hsube i (List.mem_append_right _ h))
+      have := ihr i hir
+      simp only [List.mem_append] at this
+      constructor
+      · rintro (h | h)
+        · exact absurd h h1
+        · rintro (h' | (h' | h') | h')
+          · exact this.mp h (Or.inl h')
+          · exact h2 h'
+          · exact h3 h'
+          · exact this.mp h (Or.inr h')
+      · intro h
+        exact Or.inr (this.mpr fun h' => h (h'.elim (fun a => Or.inl a) (fun a => Or.inr (Or.inr a))))
+  | (k, .list xs) :: r, sl, sb, hnd, i, hi => by
+    simp only [idsT] at hnd hi
+    simp only [cleanT, idsT, topIds, remSubs]
+    exact part_line L B r sl sb hnd i hi
+  | (k, .leaf x) :: r, sl, sb, hnd, i, hi => by
+    have ih := fun sl sb hnd => part_line L B r sl sb hnd
+    have hsubr : ∀ s' j, j ∈ dupFrom L s' (topIds true r) ++ remSubs true L r → j ∈ idsT true r := by
+      intro s' j hj
+      rcases List.mem_append.mp hj with h | h
+      · exact top_sub_ids true r j (dupFrom_sub _ _ _ j h)
+      · exact remSubs_sub true L r j h
+    cases hp : phOf k x with
+    | none =>
+      simp only [idsT, hp, List.nil_append] at hnd hi
+      simp only [cleanT, hp, idsT, topIds, remSubs, List.nil_append]
+      exact ih sl sb hnd i hi
+    | some li =>
+      obtain ⟨l, j⟩ := li
+      cases l with
+      | false =>
+        simp only [idsT, hp, Bool.false_eq_true, if_false, List.nil_append] at hnd hi
+        simp only [cleanT, hp, topIds, remSubs, Bool.false_eq_true, if_false, List.nil_append]
+        cases hg : B.get? j with
+        | none => simp only [idsT, hp, Bool.false_eq_true, if_false, List.nil_append]; exact ih sl sb hnd i hi
+        | some t =>
+          simp only []
+          split
+          · exact ih _ _ hnd i hi
+          · simp only [idsT, hp, Bool.false_eq_true, if_false, List.nil_append]; exact ih _ _ hnd i hi
+      | true =>
+        simp only [idsT, hp, if_true, List.singleton_append, List.nodup_cons] at hnd hi
+        have hjr : ∀ s', j ∉ dupFrom L s' (topIds true r) ++ remSubs true L r := fun s' h => hnd.1 (hsubr s' j h)
+        simp only [cleanT, hp, topIds, remSubs, if_true, List.singleton_append]
+        cases hg : L.get? j with
+        | none =>
+          simp only [dupFrom, hg, idsT, hp, if_true, List.singleton_append, List.mem_cons]
+          rcases List.mem_cons.mp hi with rfl | hir
+          · exact ⟨fun _ => hjr sl, fun _ => Or.inl rfl⟩
+          · have hne : i ≠ j := fun e => hnd.1 (e ▸ hir)
+            have := ih sl sb hnd.2 i hir
+            constructor
+            · rintro (h | h)
+              · exact absurd h hne
+              · exact this.mp h
+            · exact fun h => Or.inr (this.mpr h)
+        | some t =>
+          by_cases hc : sl.contains t = true
+          · simp only [dupFrom, hg, hc, if_true, List.cons_append, List.mem_cons, not_or]
+            rcases List.mem_cons.mp hi with rfl | hir
+            · constructor
+              · intro h
+                exact absurd ((ids_cleanT_sublist L B true r sl sb).subset h) hnd.1
+              · intro h; exact absurd rfl h.1
+            · have hne : i ≠ j := fun e => hnd.1 (e ▸ hir)
+              have := ih sl sb hnd.2 i hir
+              exact ⟨fun h => ⟨hne, this.mp h⟩, fun h => this.mpr h.2⟩
+          · have hc' : sl.contains t = false := by simpa using hc
+            simp only [dupFrom, hg, hc', Bool.false_eq_true, if_false, idsT, hp, if_true, List.singleton_append,
+              List.mem_cons]
+            rcases List.mem_cons.mp hi with rfl | hir
+            · exact ⟨fun _ => hjr _, fun _ => Or.inl rfl⟩
+            · have hne : i ≠ j := fun e => hnd.1 (e ▸ hir)
+              have := ih (sl ++ [t]) sb hnd.2 i hir
+              constructor
+              · rintro (h | h)
+                · exact absurd h hne
+                · exact this.mp h
+              · exact fun h => Or.inr (this.mpr h)
+
+theorem del_notMem {j : Nat} : ∀ {T : Tbl Str}, (T.map (·.1)).Nodup → ∀ e ∈ Tbl.del j T, e.1 ≠ j
+  | [], _, e, he => by simp [Tbl.del] at he
+  | (a, b) :: T, hnd, e, he => by
+    simp only [List.map_cons, List.nodup_cons] at hnd
+    simp only [Tbl.del] at he
+    split at he
+    · next hab =>
+      subst hab
+      intro e1
+      exact hnd.1 (by rw [← e1]; exact List.mem_map_of_mem he)
+    · next hab =>
+      rcases List.mem_cons.mp he with rfl | he
+      · exact hab
+      · exact del_notMem hnd.2 e he
+
+theorem delIds_notMem : ∀ (ids : List Nat) {T : Tbl Str}, (T.map (·.1)).Nodup → ∀ e ∈ delIds ids T, e.1 ∉ ids
+  | [], _, _, _, _ => by simp
+  | j :: ids, T, hnd, e, he => by
+    simp only [delIds, List.foldl_cons] at he
+    have hnd' : ((Tbl.del j T).map (·.1)).Nodup := ((del_sublist j T).map _).nodup hnd
+    have h1 := delIds_notMem ids hnd' e he
+    have h2 : e ∈ Tbl.del j T := (delIds_sublist ids _).subset he
+    simp only [List.mem_cons, not_or]
+    exact ⟨del_notMem hnd e h2, h1⟩
+
+/-- the entries that are left find their comments in the tables that are left -/
+theorem cov_cleanT {L B L' B' : Tbl Str} : ∀ (D : Entries) (sl sb : List Str), phCov L B D = true →
+    (∀ i ∈ idsT true (cleanT L B sl sb D), L'.get? i = L.get? i) →
+    (∀ i ∈ idsT false (cleanT L B sl sb D), B'.get? i = B.get? i) → phCov L' B' (cleanT L B sl sb D) = true
+  | [], _, _, _, _, _ => by simp [cleanT, phCov]
+  | (k, .dict es) :: r, sl, sb, hc, hL, hB => by
+    simp only [phCov, Bool.and_eq_true] at hc
+    simp only [cleanT, idsT, List.mem_append] at hL hB
+    simp only [cleanT, phCov, Bool.and_eq_true]
+    exact ⟨cov_cleanT es [] [] hc.1 (fun i h => hL i (Or.inl h)) (fun i h => hB i (Or.inl h)),
+      cov_cleanT r sl sb hc.2 (fun i h => hL i (Or.inr h)) (fun i h => hB i (Or.inr h))⟩
+  | (k, .list xs) :: r, sl, sb, hc, hL, hB => by
+    simp only [phCov] at hc
+    simp only [cleanT, idsT] at hL hB
+    simp only [cleanT, phCov]
+    exact cov_cleanT r sl sb hc hL hB
+  | (k, .leaf x) :: r, sl, sb, hc, hL, hB => by
+    simp only [phCov, Bool.and_eq_true] at hc
+    cases hp : phOf k x with
+    | none =>
+      simp only [cleanT, hp, idsT, List.nil_append] at hL hB
+      simp only [cleanT, hp, phCov, Bool.true_and]
+      exact cov_cleanT r sl sb hc.2 hL hB
+    | some li =>
+      obtain ⟨l, i⟩ := li
+      rw [hp] at hc
+      cases l with
+      | true =>
+        obtain ⟨t, ht⟩ := Option.isSome_iff_exists.mp hc.1
+        by_cases hcs : sl.contains t = true
+        · simp only [cleanT, hp, ht, hcs, if_true] at hL hB ⊢
+          exact cov_cleanT r sl sb hc.2 hL hB
+        · have hcs' : sl.contains t = false := by simpa using hcs
+          simp only [cleanT, hp, ht, hcs', Bool.false_eq_true, if_false] at hL hB ⊢
+          simp only [idsT, hp, if_true, List.singleton_append, List.mem_cons, Bool.true_eq_false, if_false,
+            List.nil_append] at hL hB
+          simp only [phCov, hp, Bool.and_eq_true]
+          refine ⟨?_, cov_cleanT r _ sb hc.2 (fun j h => hL j (Or.inr h)) hB⟩
+          rw [hL i (Or.inl rfl), ht]; rfl
+      | false =>
+        obtain ⟨t, ht⟩ := Option.isSome_iff_exists.mp hc.1
+        by_cases hcs : sb.contains t = true
+        · simp only [cleanT, hp, ht, hcs, if_true] at hL hB ⊢
+          exact cov_cleanT r sl sb hc.2 hL hB
+        · have hcs' : sb.contains t = false := by simpa using hcs
+          simp only [cleanT, hp, ht, hcs', Bool.false_eq_true, if_false] at hL hB ⊢
+          simp only [idsT, hp, if_true, List.singleton_append, List.mem_cons, Bool.false_eq_true, if_false,
+            List.nil_append] at hL hB
+          simp only [phCov, hp, Bool.and_eq_true]
+          refine ⟨?_, cov_cleanT r sl _ hc.2 hL (fun j h => hB j (Or.inr h))⟩
+          rw [hB i (Or.inl rfl), ht]; rfl
+
+/-- the block-comment ids of the raw output are the block-comment ids of the tree -/
+theorem bIds_xtoks : ∀ (d lvl : Nat) (D : Entries), wshEs d D = true → bIds (xtoksEs lvl D) = idsT false D
+  | _, _, [], _ => by simp [xtoksEs, idsT, bIds]
+  | d, lvl, (k, .dict es) :: r, h => by
+    simp only [wshEs, Bool.and_eq_true] at h
+    simp only [xtoksEs, idsT]
+    rw [show ∀ (a b : XTok) (m q z : List XTok), a :: b :: m ++ q ++ z = [a, b] ++ m ++ q ++ z from by intros; simp,
+      bIds_append, bIds_append, bIds_append, bIds_xtoks (d + 1) (lvl + 1) es h.1.2, bIds_xtoks d lvl r h.2]
+    simp only [bIds_tok, bIds_nil, List.nil_append, List.append_nil]
+  | d, lvl, (k, .list xs) :: r, h => by
+    simp only [wshEs, Bool.and_eq_true] at h
+    simp only [xtoksEs, idsT]
+    rw [show ∀ (a b : XTok) (m q z : List XTok), a :: (b :: m ++ q) ++ z = [a, b] ++ m ++ q ++ z from by intros; simp,
+      bIds_append, bIds_append, bIds_append, bIds_toks, bIds_xtoks d lvl r h.2]
+    simp only [bIds_tok, bIds_nil, List.nil_append]
+  | d, lvl, (k, .leaf x) :: r, h => by
+    simp only [wshEs, Bool.and_eq_true] at h
+    have ih := bIds_xtoks d lvl r h.2
+    cases hp : phOf k x with
+    | none => simp only [xtoksEs, idsT, hp, List.cons_append, List.nil_append, bIds_tok, ih]
+    | some li =>
+      obtain ⟨l, i⟩ := li
+      cases l with
+      | true => simp only [xtoksEs, idsT, hp, List.singleton_append, bIds_phT, ih, Bool.true_eq_false, if_false,
+          List.nil_append]
+      | false => simp only [xtoksEs, idsT, hp, List.singleton_append, bIds_phF, ih, if_true]
+
+/-- the first block-comment entry of a level survives `_clean` (nothing was seen before it) -/
+theorem first_block_kept (L B : Tbl Str) (d : Nat) {n : Nat} : ∀ (D : Entries) (sl : List Str) (rest : Entries),
+    wshEs d D = true → D.filter isBE = phEntry false n :: rest →
+    ∃ rest', (cleanT L B sl [] D).filter isBE = phEntry false n :: rest'
+  | [], _, _, _, h => by simp at h
+  | (k, .dict es) :: r, sl, rest, hw, h => by
+    simp only [wshEs, Bool.and_eq_true] at hw
+    have hb : isBE (k, Val.dict es) = false := (sel_dom hw.1.1).1
+    have hb' : isBE (k, Val.dict (cleanT L B [] [] es)) = false := (sel_dom hw.1.1).1
+    simp only [List.filter_cons, hb, Bool.false_eq_true, if_false] at h
+    obtain ⟨rest', h'⟩ := first_block_kept L B d r sl rest hw.2 h
+    exact ⟨rest', by simp only [cleanT, List.filter_cons, hb', Bool.false_eq_true, if_false, h']⟩
+  | (k, .list xs) :: r, sl, rest, hw, h => by
+    simp only [wshEs, Bool.and_eq_true] at hw
+    have hb : isBE (k, Val.list xs) = false := (sel_dom hw.1.1).1
+    simp only [List.filter_cons, hb, Bool.false_eq_true, if_false] at h
+    obtain ⟨rest', h'⟩ := first_block_kept L B d r sl rest hw.2 h
+    exact ⟨rest', by simp only [cleanT, List.filter_cons, hb, Bool.false_eq_true, if_false, h']⟩
+  | (k, .leaf x) :: r, sl, rest, hw, h => by
+    simp only [wshEs, Bool.and_eq_true, Bool.or_eq_true, decide_eq_true_eq] at hw
+    cases hp : phOf k x with
+    | none =>
+      rw [hp] at hw
+      rcases hw.1 with h1 | h1
+      · cases h1
+      · have hb : isBE (k, Val.leaf x) = false := (sel_dom h1.1.1).1
+        simp only [List.filter_cons, hb, Bool.false_eq_true, if_false] at h
+        obtain ⟨rest', h'⟩ := first_block_kept L B d r sl rest hw.2 h
+        exact ⟨rest', by simp only [cleanT, hp, List.filter_cons, hb, Bool.false_eq_true, if_false, h']⟩
+    | some li =>
+      obtain ⟨l, i⟩ := li
+      obtain ⟨rfl, rfl, hi⟩ := phOf_some hp
+      cases l with
+      | true =>
+        have hb : isBE (Key.str (phWord true i), Val.leaf (.str (phWord true i))) = false := (sel_line hi).1
+        simp only [List.filter_cons, hb, Bool.false_eq_true, if_false] at h
+        simp only [cleanT, hp]
+        cases hg : L.get? i with
+        | none =>
+          obtain ⟨rest', h'⟩ := first_block_kept L B d r sl rest hw.2 h
+          exact ⟨rest', by simp only [List.filter_cons, hb, Bool.false_eq_true, if_false, h']⟩
+        | some t =>
+          simp only []
+          split
+          · exact first_block_kept L B d r sl rest hw.2 h
+          · obtain ⟨rest', h'⟩ := first_block_kept L B d r (sl ++ [t]) rest hw.2 h
+            exact ⟨rest', by simp only [List.filter_cons, hb, Bool.false_eq_true, if_false, h']⟩
+      | false =>
+        have hb : isBE (Key.str (phWord false i), Val.leaf (.str (phWord false i))) = true := (sel_block hi).1
+        simp only [List.filter_cons, hb, if_true, List.cons.injEq] at h
+        simp only [cleanT, hp]
+        cases hg : B.get? i with
+        | none =>
+          refine ⟨(cleanT L B sl [] r).filter isBE, ?_⟩
+          rw [List.filter_cons, hb, if_pos rfl, h.1]
+        | some t =>
+          simp only [List.contains_nil, Bool.false_eq_true, if_false]
+          refine ⟨(cleanT L B sl ([] ++ [t]) r).filter isBE, ?_⟩
+          rw [List.filter_cons, hb, if_pos rfl, h.1]
+
+/-! ### the document without the repeated comments -/
+
+mutual
+  def dedupV : CSrc → CSrc
+    | .dict items => .dict (dedupLvl [] [] items)
+    | .lit l => .lit l
+    | .list xs => .list xs
+  /-- drop, at every level, a line (block) comment whose text equals that of an earlier line (block) comment of the
+      level -/
+  def dedupLvl : List Str → List Str → List CItem → List CItem
+    | _, _, [] => []
+    | sl, sb, .entry k v :: r => .entry k (dedupV v) :: dedupLvl sl sb r
+    | sl, sb, .lineC x :: r => if sl.contains x then dedupLvl sl sb r else .lineC x :: dedupLvl (sl ++ [x]) sb r
+    | sl, sb, .blockC x :: r => if sb.contains x then dedupLvl sl sb r else .blockC x :: dedupLvl sl (sb ++ [x]) r
+end
+
+def dedupI (items : List CItem) : List CItem := dedupLvl [] [] items
+
+def lineFull (x : Str) : Str := '/' :: '/' :: x
+def blockFull (x : Str) : Str := '/' :: '*' :: x ++ ['*', '/']
+
+theorem lineFull_inj {a b : Str} (h : lineFull a = lineFull b) : a = b := by simpa [lineFull] using h
+theorem blockFull_inj {a b : Str} (h : blockFull a = blockFull b) : a = b := by
+  simp only [blockFull, List.cons_append, List.cons.injEq, true_and] at h
+  exact List.append_cancel_right h
+
+theorem contains_map_inj {f : Str → Str} (hf : ∀ a b, f a = f b → a = b) (l : List Str) (x : Str) :
+    (l.map f).contains (f x) = l.contains x := by
+  rw [Bool.eq_iff_iff]
+  simp only [List.contains_iff_mem, List.mem_map]
+  constructor
+  · rintro ⟨a, ha, e⟩; rw [← hf a x e]; exact ha
+  · exact fun h => ⟨x, h, rfl⟩
+
+/-- **the document written for the cleaned tree is the document written for the tree, without the repeated comments** -/
+theorem doc_cleanT {L B L' B' : Tbl Str} : ∀ (D : Entries) (sl sb : List Str), phCov L B D = true →
+    (∀ i ∈ idsT true D, ∀ t, L.get? i = some t → ∃ x, t = lineFull x) →
+    (∀ i ∈ idsT false D, ∀ t, B.get? i = some t → ∃ x, t = blockFull x) →
+    (∀ i ∈ idsT true (cleanT L B (sl.map lineFull) (sb.map blockFull) D), L'.get? i = L.get? i) →
+    (∀ i ∈ idsT false (cleanT L B (sl.map lineFull) (sb.map blockFull) D), B'.get? i = B.get? i) →
+    docEs L' B' (cleanT L B (sl.map lineFull) (sb.map blockFull) D) = dedupLvl sl sb (docEs L B D)
+  | [], _, _, _, _, _, _, _ => by simp [cleanT, docEs, dedupLvl]
+  | (k, .dict es) :: r, sl, sb, hc, hsL, hsB, hL, hB => by
+    simp only [phCov, Bool.and_eq_true] at hc
+    simp only [idsT, List.mem_append] at hsL hsB
+    simp only [cleanT, idsT, List.mem_append] at hL hB
+    have ihe := doc_cleanT es [] [] hc.1 (fun i h => hsL i (Or.inl h)) (fun i h => hsB i (Or.inl h))
+      (fun i h => hL i (Or.inl h)) (fun i h => hB i (Or.inl h))
+    have ihr := doc_cleanT r sl sb hc.2 (fun i h => hsL i (Or.inr h)) (fun i h => hsB i (Or.inr h))
+      (fun i h => hL i (Or.inr h)) (fun i h => hB i (Or.inr h))
+    simp only [List.map_nil] at ihe
+    simp only [cleanT, docEs, dedupLvl, dedupV, ihe, ihr]
+  | (k, .list xs) :: r, sl, sb, hc, hsL, hsB, hL, hB => by
+    simp only [phCov] at hc
+    simp only [idsT] at hsL hsB
+    simp only [cleanT, idsT] at hL hB
+    simp only [cleanT, docEs, dedupLvl, dedupV, doc_cleanT r sl sb hc hsL hsB hL hB]
+  | (k, .leaf x) :: r, sl, sb, hc, hsL, hsB, hL, hB => by
+    simp only [phCov, Bool.and_eq_true] at hc
+    cases hp : phOf k x with
+    | none =>
+      simp only [idsT, hp, List.nil_append] at hsL hsB
+      simp only [cleanT, hp, idsT, List.nil_append] at hL hB
+      simp only [cleanT, hp, docEs, dedupLvl, dedupV, doc_cleanT r sl sb hc.2 hsL hsB hL hB]
+    | some li =>
+      obtain ⟨l, i⟩ := li
+      rw [hp] at hc
+      cases l with
+      | true =>
+        obtain ⟨t, ht⟩ := Option.isSome_iff_exists.mp hc.1
+        simp only [idsT, hp, if_true, List.singleton_append, List.mem_cons, Bool.true_eq_false, if_false,
+          List.nil_append] at hsL hsB
+        obtain ⟨y, rfl⟩ := hsL i (Or.inl rfl) t ht
+        have hcm := contains_map_inj (fun a b => lineFull_inj) sl y
+        by_cases hcs : sl.contains y = true
+        · simp only [cleanT, hp, ht, hcm, hcs, if_true] at hL hB ⊢
+          simp only [docEs, hp, ht, Option.getD_some, lineFull, lineBody_eq, dedupLvl, hcs, if_true]
+          exact doc_cleanT r sl sb hc.2 (fun j h => hsL j (Or.inr h)) hsB hL hB
+        · have hcs' : sl.contains y = false := by simpa using hcs
+          simp only [cleanT, hp, ht, hcm, hcs', Bool.false_eq_true, if_false] at hL hB ⊢
+          simp only [idsT, hp, if_true, List.singleton_append, List.mem_cons, Bool.true_eq_false, if_false,
+            List.nil_append] at hL hB
+          have e : sl.map lineFull ++ [lineFull y] = (sl ++ [y]).map lineFull := by simp
+          rw [e] at hL hB ⊢
+          have ih := doc_cleanT r (sl ++ [y]) sb hc.2 (fun j h => hsL j (Or.inr h)) hsB (fun j h => hL j (Or.inr h)) hB
+          simp only [docEs, hp, hL i (Or.inl rfl), ht, Option.getD_some, lineFull, lineBody_eq, dedupLvl, hcs',
+            Bool.false_eq_true, if_false, ih]
+      | false =>
+        obtain ⟨t, ht⟩ := Option.isSome_iff_exists.mp hc.1
+        simp only [idsT, hp, if_true, List.singleton_append, List.mem_cons, Bool.false_eq_true, if_false,
+          List.nil_append] at hsL hsB
+        obtain ⟨y, rfl⟩ := hsB i (Or.inl rfl) t ht
+        have hcm := contains_map_inj (fun a b => blockFull_inj) sb y
+        by_cases hcs : sb.contains y = true
+        · simp only [cleanT, hp, ht, hcm, hcs, if_true] at hL hB ⊢
+          simp only [docEs, hp, ht, Option.getD_some, blockFull, blockBody_eq, dedupLvl, hcs, if_true]
+          exact doc_cleanT r sl sb hc.2 hsL (fun j h => hsB j (Or.inr h)) hL hB
+        · have hcs' : sb.contains y = false := by simpa using hcs
+          simp only [cleanT, hp, ht, hcm, hcs', Bool.false_eq_true, if_false] at hL hB ⊢
+          simp only [idsT, hp, if_true, List.singleton_append, List.mem_cons, Bool.false_eq_true, if_false,
+            List.nil_append] at hL hB
+          have e : sb.map blockFull ++ [blockFull y] = (sb ++ [y]).map blockFull := by simp
+          rw [e] at hL hB ⊢
+          have ih := doc_cleanT r sl (sb ++ [y]) hc.2 hsL (fun j h => hsB j (Or.inr h)) hL (fun j h => hB j (Or.inr h))
+          simp only [docEs, hp, hB i (Or.inl rfl), ht, Option.getD_some, blockFull, blockBody_eq, dedupLvl, hcs',
+            Bool.false_eq_true, if_false, ih]
+
+/-! ## 24. `denC c items` when comments may repeat -/
+
+mutual
+  def klvV : CSrc → Bool
+    | .dict items => decide (levelKeys items).Nodup && klvI items
+    | _ => true
+  /-- the typed keys of every level below are pairwise distinct -/
+  def klvI : List CItem → Bool
+    | [] => true
+    | .entry _ v :: r => klvV v && klvI r
+    | .lineC _ :: r => klvI r
+    | .blockC _ :: r => klvI r
+end
+
+mutual
+  theorem allK_treeV : ∀ (v : CSrc) (l1 ext : List Nat) (n d : Nat),
+      l1.length = (lineFullsV v).length → l1.Nodup → (∀ i ∈ l1, i ≤ 999999) → n + (blockFullsV v).length ≤ 1000000 →
+      okV d v = true → klvV v = true →
+      (match v with
+       | .dict items => KNodup (dTreeI (l1 ++ ext) n items) ∧ allLevels KNodup (dTreeI (l1 ++ ext) n items)
+       | _ => True)
+    | .lit l, _, _, _, _, _, _, _, _, _, _ => trivial
+    | .list xs, _, _, _, _, _, _, _, _, _, _ => trivial
+    | .dict items, l1, ext, n, d, hl, hnd, hi, hn, hok, hlv => by
+      simp only [lineFullsV, blockFullsV, okV, klvV, Bool.and_eq_true, decide_eq_true_eq] at hl hn hok hlv
+      exact ⟨knodup_tree items l1 ext n (d + 1) hl hnd hi hn hok hlv.1,
+        allK_treeI items l1 ext n (d + 1) hl hnd hi hn hok hlv.2⟩
+  /-- the keys of every level below are pairwise distinct -/
+  theorem allK_treeI : ∀ (items : List CItem) (l1 ext : List Nat) (n d : Nat),
+      l1.length = (lineFullsI items).length → l1.Nodup → (∀ i ∈ l1, i ≤ 999999) →
+      n + (blockFullsI items).length ≤ 1000000 → okI d items = true → klvI items = true →
+      allLevels KNodup (dTreeI (l1 ++ ext) n items)
+    | [], _, _, _, _, _, _, _, _, _, _ => by simp only [dTreeI, allLevels]
+    | .entry k v :: r, l1, ext, n, d, hl, hnd, hi, hn, hok, hlv => by
+      simp only [lineFullsI, blockFullsI, List.length_append, okI, klvI, Bool.and_eq_true] at hl hn hok hlv
+      obtain ⟨la, lb, rfl, hla⟩ : ∃ la lb, l1 = la ++ lb ∧ la.length = (lineFullsV v).length :=
+        ⟨l1.take (lineFullsV v).length, l1.drop (lineFullsV v).length, (List.take_append_drop _ _).symm,
+          by rw [List.length_take]; omega⟩
+      have hlb : lb.length = (lineFullsI r).length := by simp only [List.length_append] at hl; omega
+      have hdrop : (la ++ lb ++ ext).drop (lineFullsV v).length = lb ++ ext := by
+        rw [List.append_assoc, List.drop_left' hla]
+      have hnd' := List.nodup_append.mp hnd
+      have ihr := allK_treeI r lb ext (n + (blockFullsV v).length) d hlb hnd'.2.1
+        (fun i h => hi i (List.mem_append_right _ h)) (by omega) hok.2 hlv.2
+      have ihv := allK_treeV v la (lb ++ ext) n d hla hnd'.1 (fun i h => hi i (List.mem_append_left _ h))
+        (by omega) hok.1.2 hlv.1
+      simp only [dTreeI, hdrop]
+      cases v with
+      | lit l => simpa only [dTreeV, allLevels] using ihr
+      | list xs => simpa only [dTreeV, allLevels] using ihr
+      | dict items =>
+        simp only [List.append_assoc] at ihv ⊢
+        simp only [dTreeV, allLevels]
+        exact ⟨ihv, ihr⟩
+    | .lineC x :: r, l1, ext, n, d, hl, hnd, hi, hn, hok, hlv => by
+      simp only [lineFullsI, blockFullsI, List.length_cons, okI, klvI, Bool.and_eq_true] at hl hn hok hlv
+      cases l1 with
+      | nil => simp at hl
+      | cons i l1 =>
+        simp only [List.length_cons, Nat.add_right_cancel_iff] at hl
+        simp only [List.nodup_cons] at hnd
+        have ihr := allK_treeI r l1 ext n d hl hnd.2 (fun j h => hi j (List.mem_cons_of_mem _ h)) hn hok.2 hlv
+        simpa only [List.cons_append, dTreeI, List.headD_cons, List.tail_cons, phEntry, allLevels] using ihr
+    | .blockC x :: r, l1, ext, n, d, hl, hnd, hi, hn, hok, hlv => by
+      simp only [lineFullsI, blockFullsI, List.length_cons, okI, klvI, Bool.and_eq_true] at hl hn hok hlv
+      have ihr := allK_treeI r l1 ext (n + 1) d hl hnd hi (by omega) hok.2 hlv
+      simpa only [dTreeI, phEntry, allLevels] using ihr
+end
+
+/-- the hypotheses on the document, comments may repeat -/
+structure HDoc2 (c : Counter) (items : List CItem) : Prop where
+  wf : CSrcWFItems 1 items = true
+  ok : okI 1 items = true
+  keys : (levelKeys items).Nodup
+  keysAll : klvI items = true
+  nLine : (lineFullsI items).length ≤ Gen.counterLimit + 1
+  nBlock : (blockFullsI items).length ≤ 1000000
+  hc : C13.ValidCounter Gen.counterLimit c
+
+/-- the ids `_clean` removes for the document -/
+def remB (c : Counter) (items : List CItem) : List Nat := remT false (blockTblOf items) (treeOf c items)
+def remL (c : Counter) (items : List CItem) : List Nat := remT true (lineTbl c items) (treeOf c items)
+
+/-- the SDict the reader returns for the document when comments may repeat -/
+def sdOf2 (c : Counter) (items : List CItem) : SD :=
+  { data := cleanT (lineTbl c items) (blockTblOf items) [] [] (treeOf c items),
+    lineC := delIds (remL c items) (lineTbl c items), blockC := delIds (remB c items) (blockTblOf items) }
+
+section
+variable {c : Counter} {items : List CItem} (H : HDoc2 c items)
+include H
+
+theorem tree_facts2 : (lineIds c items).length = (lineFullsI items).length ∧ (lineIds c items).Nodup ∧
+    (∀ i ∈ lineIds c items, i ≤ 999999) ∧ treeOf c items = dTreeI (lineIds c items ++ []) 0 items ∧
+    wshEs 1 (treeOf c items) = true ∧ KNodup (treeOf c items) ∧ allLevels KNodup (treeOf c items) ∧
+    idsT false (treeOf c items) = List.range' 0 (blockFullsI items).length ∧ idsT true (treeOf c items) = lineIds c items := by
+  have h1 : (lineIds c items).length = (lineFullsI items).length := C13.alloc_length _ _ _
+  have h2 : (lineIds c items).Nodup := C13.alloc_nodup H.nLine H.hc
+  have h3 : ∀ i ∈ lineIds c items, i ≤ 999999 := C13.alloc_le H.hc _
+  have hnb : 0 + (blockFullsI items).length ≤ 1000000 := by have := H.nBlock; omega
+  have eD : treeOf c items = dTreeI (lineIds c items ++ []) 0 items := by rw [List.append_nil]; rfl
+  have hids := idsT_treeI items (lineIds c items) [] 0 1 h1 h3 hnb H.ok
+  refine ⟨h1, h2, h3, eD, ?_, ?_, ?_, ?_, ?_⟩
+  · rw [eD]; exact wsh_treeI items _ [] 0 1 h1 h3 hnb H.ok
+  · rw [eD]; exact knodup_tree items _ [] 0 1 h1 h2 h3 hnb H.ok H.keys
+  · rw [eD]; exact allK_treeI items _ [] 0 1 h1 h2 h3 hnb H.ok H.keysAll
+  · rw [eD]; exact hids.1
+  · rw [eD]; exact hids.2
+
+/-- **`denC` in closed form, comments may repeat** -/
+theorem denC_closed2 : denC c items = sdOf2 c items := by
+  obtain ⟨h1, h2, h3, eD, hw, hk, hal, hib, hil⟩ := tree_facts2 H
+  have hst := label_stateI items { counter := c }
+  have hL : (labelCItems { counter := c } items).1.lineC = lineTbl c items := by
+    rw [hst]
+    simp only [stAfter]
+    rw [C02.setAll_nodup _ _ (by
+      simp only [List.map_nil, List.nil_append]
+      have : (lineTbl c items).map (·.1) = lineIds c items := List.map_fst_zip (by rw [h1]; exact Nat.le_refl _)
+      exact this ▸ h2)]
+    rfl
+  have hB : (labelCItems { counter := c } items).1.blockC = blockTblOf items := by
+    rw [hst]
+    simp [stAfter, blockTblOf]
+  have hD : denPEs (labelCItems { counter := c } items).2 [] = treeOf c items := by
+    have e : treeOf c items = dTreeI (alloc Gen.counterLimit (lineFullsI items).length c ++ []) 0 items := eD
+    have := den_treeI items { counter := c } [] 1 [] H.wf
+      (by
+        show KNodup (dTreeI (alloc Gen.counterLimit (lineFullsI items).length c ++ []) 0 items)
+        rw [← e]; exact hk)
+      (by
+        show allLevels KNodup (dTreeI (alloc Gen.counterLimit (lineFullsI items).length c ++ []) 0 items)
+        rw [← e]; exact hal)
+      (by intro k _ h; cases h)
+    rw [this]
+    show [] ++ dTreeI (alloc Gen.counterLimit (lineFullsI items).length c ++ []) 0 items = treeOf c items
+    rw [← e]; rfl
+  have : denC c items = (SD.mk (denPEs (labelCItems { counter := c } items).2 []) []
+      (labelCItems { counter := c } items).1.lineC (labelCItems { counter := c } items).1.blockC []).clean := rfl
+  rw [this, hL, hB, hD]
+  have hcr := cleanRec_gen (depthV (.dict (treeOf c items)) + 1) (SD.mk (treeOf c items) [] (lineTbl c items) (blockTblOf items) [])
+    (treeOf c items) 1 (by simp only [depthV]; omega) hw hk hal (by rw [hib]; exact List.nodup_range') (by rw [hil]; exact h2)
+  simp only [SD.clean, hcr]
+  rfl
+
+end
+
+mutual
+  theorem dedup_cnormV : ∀ (v : CSrc), dedupV (cnormV v) = cnormV (dedupV v)
+    | .lit l => by simp only [cnormV, dedupV]
+    | .list xs => by simp only [cnormV, dedupV]
+    | .dict items => by simp only [cnormV, dedupV, dedup_cnormI items [] []]
+  /-- the writer's spelling and the removal of repeated comments commute -/
+  theorem dedup_cnormI : ∀ (items : List CItem) (sl sb : List Str),
+      dedupLvl sl sb (cnormI items) = cnormI (dedupLvl sl sb items)
+    | [], _, _ => by simp only [cnormI, dedupLvl]
+    | .entry k v :: r, sl, sb => by simp only [cnormI, dedupLvl, dedup_cnormV v, dedup_cnormI r sl sb]
+    | .lineC x :: r, sl, sb => by
+      simp only [cnormI, dedupLvl]
+      split
+      · exact dedup_cnormI r sl sb
+      · simp only [cnormI, dedup_cnormI r _ sb]
+    | .blockC x :: r, sl, sb => by
+      simp only [cnormI, dedupLvl]
+      split
+      · exact dedup_cnormI r sl sb
+      · simp only [cnormI, dedup_cnormI r sl _]
+end
+
+
+/-! ### the block comments that are left, in terms of the items -/
+
+theorem del_filter {j : Nat} : ∀ {T : Tbl Str}, (T.map (·.1)).Nodup → Tbl.del j T = T.filter fun e => e.1 ≠ j
+  | [], _ => rfl
+  | (a, b) :: T, h => by
+    simp only [List.map_cons, List.nodup_cons] at h
+    simp only [Tbl.del, List.filter_cons]
+    by_cases e : a = j
+    · subst e
+      simp only [if_true, ne_eq, not_true_eq_false, decide_false, Bool.false_eq_true, if_false]
+      symm
+      apply List.filter_eq_self.mpr
+      intro e' he'
+      simp only [ne_eq, decide_eq_true_eq]
+      intro e2
+      exact h.1 (by rw [← e2]; exact List.mem_map_of_mem he')
+    · simp only [e, if_false, ne_eq, not_false_eq_true, decide_true, if_true]
+      rw [del_filter h.2]
+
+theorem delIds_filter : ∀ (ids : List Nat) {T : Tbl Str}, (T.map (·.1)).Nodup →
+    delIds ids T = T.filter fun e => e.1 ∉ ids
+  | [], T, _ => by
+    simp only [delIds, List.foldl_nil, List.not_mem_nil, not_false_eq_true, decide_true]
+    exact (List.filter_eq_self.mpr fun _ _ => rfl).symm
+  | j :: ids, T, h => by
+    simp only [delIds, List.foldl_cons]
+    have hnd' : ((Tbl.del j T).map (·.1)).Nodup := ((del_sublist j T).map _).nodup h
+    have := delIds_filter ids hnd'
+    simp only [delIds] at this
+    rw [this, del_filter h, List.filter_filter]
+    apply List.filter_congr
+    intro e _
+    simp only [List.mem_cons, not_or, ne_eq, Bool.decide_and]
+    simp [Bool.and_comm]
+
+/-- a sublist of a list without repetitions is determined by its members -/
+theorem sublist_eq_filter {α} [DecidableEq α] (p : α → Bool) : ∀ {X Y : List α}, Y.Sublist X → X.Nodup →
+    (∀ x ∈ X, (x ∈ Y ↔ p x = true)) → Y = X.filter p
+  | [], Y, hs, _, _ => by simp [List.sublist_nil.mp hs]
+  | x :: X, Y, hs, hnd, h => by
+    simp only [List.nodup_cons] at hnd
+    cases hs with
+    | cons _ hs' =>
+      -- `x` is not in `Y`
+      have hx : x ∉ Y := fun hm => hnd.1 (hs'.subset hm)
+      have hpx : p x = false := by
+        cases hp : p x with
+        | false => rfl
+        | true => exact absurd ((h x List.mem_cons_self).mpr hp) hx
+      simp only [List.filter_cons, hpx, Bool.false_eq_true, if_false]
+      exact sublist_eq_filter p hs' hnd.2 fun y hy => h y (List.mem_cons_of_mem _ hy)
+    | cons_cons _ hs' =>
+      rename_i Y'
+      have hpx : p x = true := (h x List.mem_cons_self).mp List.mem_cons_self
+      simp only [List.filter_cons, hpx, if_true, List.cons.injEq, true_and]
+      apply sublist_eq_filter p hs' hnd.2
+      intro y hy
+      have hne : y ≠ x := fun e => hnd.1 (e ▸ hy)
+      have := h y (List.mem_cons_of_mem _ hy)
+      simp only [List.mem_cons, hne, false_or] at this
+      exact this
+
+mutual
+  theorem blockFulls_cnormV : ∀ (v : CSrc), blockFullsV (cnormV v) = blockFullsV v
+    | .lit l => by simp only [cnormV, blockFullsV]
+    | .list xs => by simp only [cnormV, blockFullsV]
+    | .dict items => by simp only [cnormV, blockFullsV, blockFulls_cnormI items]
+  theorem blockFulls_cnormI : ∀ (items : List CItem), blockFullsI (cnormI items) = blockFullsI items
+    | [] => by simp only [cnormI]
+    | .entry k v :: r => by simp only [cnormI, blockFullsI, blockFulls_cnormV v, blockFulls_cnormI r]
+    | .lineC x :: r => by simp only [cnormI, blockFullsI, blockFulls_cnormI r]
+    | .blockC x :: r => by simp only [cnormI, blockFullsI, blockFulls_cnormI r]
+end
+
+/-- the block comments of the written document, in document order, are the table texts of the block ids of the tree -/
+theorem blockFulls_doc (L B : Tbl Str) : ∀ (D : Entries), phCov L B D = true →
+    (∀ i ∈ idsT false D, ∀ t, B.get? i = some t → ∃ x, t = blockFull x) →
+    blockFullsI (docEs L B D) = (idsT false D).map fun i => (B.get? i).getD []
+  | [], _, _ => by simp [docEs, blockFullsI, idsT]
+  | (k, .dict es) :: r, hc, hs => by
+    simp only [phCov, Bool.and_eq_true] at hc
+    simp only [idsT, List.mem_append] at hs
+    simp only [docEs, blockFullsI, blockFullsV, idsT, List.map_append,
+      blockFulls_doc L B es hc.1 (fun i h => hs i (Or.inl h)), blockFulls_doc L B r hc.2 (fun i h => hs i (Or.inr h))]
+  | (k, .list xs) :: r, hc, hs => by
+    simp only [phCov] at hc
+    simp only [idsT] at hs
+    simp only [docEs, blockFullsI, blockFullsV, idsT, List.nil_append, blockFulls_doc L B r hc hs]
+  | (k, .leaf x) :: r, hc, hs => by
+    simp only [phCov, Bool.and_eq_true] at hc
+    cases hp : phOf k x with
+    | none =>
+      simp only [idsT, hp, List.nil_append] at hs
+      simp only [docEs, hp, blockFullsI, blockFullsV, idsT, List.nil_append, blockFulls_doc L B r hc.2 hs]
+    | some li =>
+      obtain ⟨l, i⟩ := li
+      rw [hp] at hc
+      cases l with
+      | true =>
+        simp only [idsT, hp, Bool.true_eq_false, if_false, List.nil_append] at hs
+        simp only [docEs, hp, blockFullsI, idsT, Bool.true_eq_false, if_false, List.nil_append,
+          blockFulls_doc L B r hc.2 hs]
+      | false =>
+        simp only [idsT, hp, if_true, List.singleton_append, List.mem_cons] at hs
+        obtain ⟨t, ht⟩ := Option.isSome_iff_exists.mp hc.1
+        obtain ⟨y, rfl⟩ := hs i (Or.inl rfl) t ht
+        simp only [docEs, hp, blockFullsI, idsT, if_true, List.singleton_append, List.map_cons, ht, Option.getD_some,
+          blockFull, blockBody_eq, blockFulls_doc L B r hc.2 (fun j h => hs j (Or.inr h))]
+
+theorem map_snd_get {T : Tbl Str} (h : (T.map (·.1)).Nodup) :
+    T.map (·.2) = (T.map (·.1)).map fun i => (T.get? i).getD [] := by
+  rw [List.map_map]
+  apply List.map_congr_left
+  intro e he
+  simp only [Function.comp, tbl_get_nodup h he, Option.getD_some]
+
+/-- **the block comments `_clean` leaves in the table are the block comments of the document without repetitions** -/
+theorem kept_blocks {c : Counter} {items : List CItem} (H : HDoc2 c items) :
+    (delIds (remB c items) (blockTblOf items)).map (·.2) = blockFullsI (dedupI items) := by
+  obtain ⟨h1, h2, h3, eD, hw, hk, hal, hib, hil⟩ := tree_facts2 H
+  have hnb : 0 + (blockFullsI items).length ≤ 1000000 := by have := H.nBlock; omega
+  have hLids : (lineTbl c items).map (·.1) = lineIds c items := List.map_fst_zip (by rw [h1]; exact Nat.le_refl _)
+  have hBids : (blockTblOf items).map (·.1) = List.range' 0 (blockFullsI items).length := List.map_fst_zip (by simp)
+  have hlkL : LkL (lineTbl c items) (lineIds c items) (lineFullsI items) :=
+    fun p hp => tbl_get_nodup (by rw [hLids]; exact h2) hp
+  have hlkB : LkB (blockTblOf items) 0 (blockFullsI items) :=
+    fun p hp => tbl_get_nodup (by rw [hBids]; exact List.nodup_range') hp
+  have hdoc := doc_treeI (lineTbl c items) (blockTblOf items) items _ [] 0 1 h1 h3 hnb H.ok hlkL hlkB
+  rw [← eD] at hdoc
+  obtain ⟨fl, fb⟩ := fulls_okI items 1 1 H.wf H.ok
+  have hLT : ∀ e ∈ lineTbl c items, ∃ x, e.2 = lineFull x := by
+    intro e he
+    obtain ⟨_, hb⟩ := List.of_mem_zip (show (e.1, e.2) ∈ (lineIds c items).zip (lineFullsI items) from he)
+    obtain ⟨x, hx, _⟩ := fl _ hb
+    exact ⟨x, hx⟩
+  have hBT : ∀ e ∈ blockTblOf items, ∃ x, e.2 = blockFull x := by
+    intro e he
+    obtain ⟨_, hb⟩ := List.of_mem_zip (show (e.1, e.2) ∈ (List.range' 0 (blockFullsI items).length).zip (blockFullsI items) from he)
+    obtain ⟨x, hx, _⟩ := fb _ hb
+    exact ⟨x, hx⟩
+  have hndb : (idsT false (treeOf c items)).Nodup := by rw [hib]; exact List.nodup_range'
+  have hndl : (idsT true (treeOf c items)).Nodup := by rw [hil]; exact h2
+  have hkeepB : ∀ i ∈ idsT false (cleanT (lineTbl c items) (blockTblOf items) [] [] (treeOf c items)),
+      (delIds (remB c items) (blockTblOf items)).get? i = (blockTblOf items).get? i := by
+    intro i hi
+    have hi' := (ids_cleanT_sublist _ _ false _ [] []).subset hi
+    exact get_delIds _ _ ((part_block _ _ _ [] [] hndb i hi').mp hi)
+  have hkeepL : ∀ i ∈ idsT true (cleanT (lineTbl c items) (blockTblOf items) [] [] (treeOf c items)),
+      (delIds (remL c items) (lineTbl c items)).get? i = (lineTbl c items).get? i := by
+    intro i hi
+    have hi' := (ids_cleanT_sublist _ _ true _ [] []).subset hi
+    exact get_delIds _ _ ((part_line _ _ _ [] [] hndl i hi').mp hi)
+  have hcov' := cov_cleanT (treeOf c items) [] [] hdoc.1 hkeepL hkeepB
+  have hdc := doc_cleanT (L' := delIds (remL c items) (lineTbl c items)) (B' := delIds (remB c items) (blockTblOf items))
+    (treeOf c items) [] [] hdoc.1
+    (fun i _ t ht => hLT _ (tbl_get_mem ht)) (fun i _ t ht => hBT _ (tbl_get_mem ht)) hkeepL hkeepB
+  simp only [List.map_nil] at hdc
+  -- the ids left in the table are the ids left in the tree, in the same order
+  have hBnd : ((blockTblOf items).map (·.1)).Nodup := by rw [hBids]; exact List.nodup_range'
+  have hB'nd : ((delIds (remB c items) (blockTblOf items)).map (·.1)).Nodup := ((delIds_sublist _ _).map _).nodup hBnd
+  have hids' : (delIds (remB c items) (blockTblOf items)).map (·.1) =
+      idsT false (cleanT (lineTbl c items) (blockTblOf items) [] [] (treeOf c items)) := by
+    rw [delIds_filter _ hBnd]
+    have e1 : ((blockTblOf items).filter fun e => e.1 ∉ remB c items).map (·.1) =
+        ((blockTblOf items).map (·.1)).filter fun i => i ∉ remB c items := by
+      rw [List.filter_map]; rfl
+    rw [e1, hBids, ← hib]
+    exact (sublist_eq_filter (fun i => decide (i ∉ remB c items)) (ids_cleanT_sublist _ _ false _ [] []) hndb
+      (fun i hi => by
+        rw [part_block _ _ _ [] [] hndb i hi]
+        simp [remB, remT, topDup])).symm
+  rw [map_snd_get hB'nd, hids',
+    ← blockFulls_doc (delIds (remL c items) (lineTbl c items)) (delIds (remB c items) (blockTblOf items)) _ hcov'
+      (by
+        intro i hi t ht
+        rw [hkeepB i hi] at ht
+        exact hBT _ (tbl_get_mem ht)),
+    hdc, hdoc.2, dedup_cnormI, blockFulls_cnormI]
+  rfl
+
+theorem delIds_nil (ids : List Nat) : delIds ids ([] : Tbl Str) = [] := by
+  induction ids with
+  | nil => rfl
+  | cons j ids ih => simpa [delIds, Tbl.del] using ih
+
+theorem delIds_cons_notMem {j : Nat} (t : Str) (T : Tbl Str) : ∀ (ids : List Nat), j ∉ ids →
+    delIds ids ((j, t) :: T) = (j, t) :: delIds ids T
+  | [], _ => rfl
+  | i :: ids, h => by
+    simp only [List.mem_cons, not_or] at h
+    have hne : ¬ j = i := h.1
+    simp only [delIds, List.foldl_cons, Tbl.del, hne, if_false]
+    exact delIds_cons_notMem t (Tbl.del i T) ids h.2
+
+/-- the hypotheses of the writer side of the round trip, comments may repeat -/
+structure HW2 (c : Counter) (items : List CItem) : Prop extends HDoc2 c items where
+  first : firstBlockTop items = true
+  indep : indepFrom [] (writtenBlocks (dedupI items)) = true
+
+/-- the document that is written when comments may repeat: the repeated comments of every level dropped first -/
+def writtenDoc2 (items : List CItem) : List CItem :=
+  (if ownHeaderI items then [] else [.blockC C12.hdrBody]) ++ canonItems (dedupI items)
+
+section
+variable {c : Counter} {items : List CItem} (H : HW2 c items)
+include H
+
+theorem sdOf2_facts :
+    WOK (sdOf2 c items) ∧ docSD (sdOf2 c items) = writtenDoc2 items := by
+  have HD := H.toHDoc2
+  obtain ⟨h1, h2, h3, eD, hw, hk, hal, hib, hil⟩ := tree_facts2 HD
+  have hnb : 0 + (blockFullsI items).length ≤ 1000000 := by have := H.nBlock; omega
+  have hLids : (lineTbl c items).map (·.1) = lineIds c items := List.map_fst_zip (by rw [h1]; exact Nat.le_refl _)
+  have hBids : (blockTblOf items).map (·.1) = List.range' 0 (blockFullsI items).length := List.map_fst_zip (by simp)
+  have hlkL : LkL (lineTbl c items) (lineIds c items) (lineFullsI items) :=
+    fun p hp => tbl_get_nodup (by rw [hLids]; exact h2) hp
+  have hlkB : LkB (blockTblOf items) 0 (blockFullsI items) :=
+    fun p hp => tbl_get_nodup (by rw [hBids]; exact List.nodup_range') hp
+  have hdoc := doc_treeI (lineTbl c items) (blockTblOf items) items _ [] 0 1 h1 h3 hnb H.ok hlkL hlkB
+  rw [← eD] at hdoc
+  obtain ⟨fl, fb⟩ := fulls_okI items 1 1 H.wf H.ok
+  have hLT : ∀ e ∈ lineTbl c items, e.1 ≤ 999999 ∧ LineFull e.2 := by
+    intro e he
+    obtain ⟨ha, hb⟩ := List.of_mem_zip (show (e.1, e.2) ∈ (lineIds c items).zip (lineFullsI items) from he)
+    exact ⟨h3 _ ha, fl _ hb⟩
+  have hBT : ∀ e ∈ blockTblOf items, e.1 ≤ 999999 ∧ BlockFull e.2 := by
+    intro e he
+    obtain ⟨ha, hb⟩ := List.of_mem_zip (show (e.1, e.2) ∈ (List.range' 0 (blockFullsI items).length).zip (blockFullsI items) from he)
+    have := List.mem_range'_1.mp ha
+    exact ⟨by have := H.nBlock; omega, fb _ hb⟩
+  -- what is left keeps its comments
+  have hndb : (idsT false (treeOf c items)).Nodup := by rw [hib]; exact List.nodup_range'
+  have hndl : (idsT true (treeOf c items)).Nodup := by rw [hil]; exact h2
+  have hkeepB : ∀ i ∈ idsT false (cleanT (lineTbl c items) (blockTblOf items) [] [] (treeOf c items)),
+      (delIds (remB c items) (blockTblOf items)).get? i = (blockTblOf items).get? i := by
+    intro i hi
+    have hi' := (ids_cleanT_sublist _ _ false _ [] []).subset hi
+    exact get_delIds _ _ ((part_block _ _ _ [] [] hndb i hi').mp hi)
+  have hkeepL : ∀ i ∈ idsT true (cleanT (lineTbl c items) (blockTblOf items) [] [] (treeOf c items)),
+      (delIds (remL c items) (lineTbl c items)).get? i = (lineTbl c items).get? i := by
+    intro i hi
+    have hi' := (ids_cleanT_sublist _ _ true _ [] []).subset hi
+    exact get_delIds _ _ ((part_line _ _ _ [] [] hndl i hi').mp hi)
+  have hw' := wsh_cleanT (lineTbl c items) (blockTblOf items) 1 (treeOf c items) [] [] hw
+  have hcov' := cov_cleanT (treeOf c items) [] [] hdoc.1 hkeepL hkeepB
+  have hho := hoist_eq (wsh_noIncl 1 _ hw')
+  have hperm : (hoistPlaceholders (cleanT (lineTbl c items) (blockTblOf items) [] [] (treeOf c items))).Perm
+      (cleanT (lineTbl c items) (blockTblOf items) [] [] (treeOf c items)) := by
+    rw [hho]; exact List.filter_append_perm _ _
+  have hbperm := bIds_perm 0 hperm
+  rw [bIds_xtoks 1 0 _ hw'] at hbperm
+  have hnd' : (idsT false (cleanT (lineTbl c items) (blockTblOf items) [] [] (treeOf c items))).Nodup :=
+    (ids_cleanT_sublist _ _ false _ [] []).nodup hndb
+  -- the first block comment
+  have hfirst : FirstOK (delIds (remB c items) (blockTblOf items))
+        (xtoksEs 0 (hoistPlaceholders (cleanT (lineTbl c items) (blockTblOf items) [] [] (treeOf c items)))) ∧
+      ownHeader (delIds (remB c items) (blockTblOf items)) = ownHeaderI items := by
+    cases hbf : blockFullsI items with
+    | nil =>
+      have hB0 : blockTblOf items = [] := by simp [blockTblOf, hbf]
+      rw [hB0, delIds_nil]
+      exact ⟨trivial, by simp [ownHeader, ownHeaderI, hbf]⟩
+    | cons t r =>
+      have hB : blockTblOf items = (0, t) :: (List.range' 1 r.length).zip r := by
+        simp [blockTblOf, hbf, List.range'_succ]
+      obtain ⟨rest, hrest⟩ := first_block items (lineIds c items) 0 1 H.ok H.first (by rw [hbf]; simp) (by omega)
+      obtain ⟨rest', hrest'⟩ := first_block_kept (lineTbl c items) (blockTblOf items) 1 (treeOf c items) [] rest hw hrest
+      have hh : hoistPlaceholders (cleanT (lineTbl c items) (blockTblOf items) [] [] (treeOf c items)) =
+          phEntry false 0 :: (rest' ++ (cleanT (lineTbl c items) (blockTblOf items) [] [] (treeOf c items)).filter
+            fun e => !isBE e) := by
+        rw [hho, hrest']; rfl
+      have hx := xtoks_phEntry 0 false (show 0 ≤ 999999 by omega)
+        (rest' ++ (cleanT (lineTbl c items) (blockTblOf items) [] [] (treeOf c items)).filter fun e => !isBE e)
+      have h0in : 0 ∈ idsT false (cleanT (lineTbl c items) (blockTblOf items) [] [] (treeOf c items)) := by
+        apply hbperm.mem_iff.mp
+        rw [hh, hx, bIds_phF]; exact List.mem_cons_self
+      have h0not : 0 ∉ remB c items :=
+        (part_block _ _ _ [] [] hndb 0 ((ids_cleanT_sublist _ _ false _ [] []).subset h0in)).mp h0in
+      have hB' : delIds (remB c items) (blockTblOf items) = (0, t) :: delIds (remB c items) ((List.range' 1 r.length).zip r) := by
+        rw [hB]; exact delIds_cons_notMem t _ _ h0not
+      constructor
+      · rw [hB', hh, hx]
+        refine ⟨_, _, rfl, ?_⟩
+        apply not_mem_bIds
+        have hnd2 := hbperm.nodup_iff.mpr hnd'
+        rw [hh, hx, bIds_phF, List.nodup_cons] at hnd2
+        exact hnd2.1
+      · rw [hB']; simp [ownHeader, ownHeaderI, hbf]
+  have eData : (sdOf2 c items).data = cleanT (lineTbl c items) (blockTblOf items) [] [] (treeOf c items) := rfl
+  have eL : (sdOf2 c items).lineC = delIds (remL c items) (lineTbl c items) := rfl
+  have eB : (sdOf2 c items).blockC = delIds (remB c items) (blockTblOf items) := rfl
+  have hindep : indepFrom [] ((blockTbl (delIds (remB c items) (blockTblOf items))).map (·.2)) = true := by
+    have hk := kept_blocks HD
+    have := H.indep
+    simp only [writtenBlocks, ← hk] at this
+    cases hB' : delIds (remB c items) (blockTblOf items) with
+    | nil => simp [blockTbl, indepFrom]
+    | cons e T =>
+      obtain ⟨i0, t0⟩ := e
+      rw [hB'] at this
+      simpa [blockTbl] using this
+  constructor
+  · refine ⟨?_, ?_, ?_, ?_, ?_, ?_, hfirst.1, hindep, rfl⟩
+    · rw [eData, hho, wshEs_append, wshEs_filter 1 _ _ hw', wshEs_filter 1 _ _ hw']; rfl
+    · rw [eData, eL, eB, hho, phCov_append, phCov_filter _ _ _ _ hcov', phCov_filter _ _ _ _ hcov']; rfl
+    · exact fun e he => hLT e ((delIds_sublist _ _).subset he)
+    · exact fun e he => hBT e ((delIds_sublist _ _).subset he)
+    · exact ((delIds_sublist _ _).map _).nodup (by rw [hBids]; exact List.nodup_range')
+    · intro e he
+      apply any_of_mem_bIds
+      apply hbperm.mem_iff.mpr
+      have hnot := delIds_notMem (remB c items) (by rw [hBids]; exact List.nodup_range') e he
+      have hin : e.1 ∈ idsT false (treeOf c items) := by
+        rw [hib, ← hBids]; exact List.mem_map_of_mem ((delIds_sublist _ _).subset he)
+      exact (part_block _ _ _ [] [] hndb e.1 hin).mpr hnot
+  · have hf := docEs_filter (delIds (remL c items) (lineTbl c items)) (delIds (remB c items) (blockTblOf items)) 1 _ hw'
+    have hdc := doc_cleanT (L' := delIds (remL c items) (lineTbl c items)) (B' := delIds (remB c items) (blockTblOf items))
+      (treeOf c items) [] [] hdoc.1
+      (by
+        intro i _ t ht
+        obtain ⟨x, hx, _⟩ := (hLT _ (tbl_get_mem ht)).2
+        exact ⟨x, hx⟩)
+      (by
+        intro i _ t ht
+        obtain ⟨x, hx, _⟩ := (hBT _ (tbl_get_mem ht)).2
+        exact ⟨x, hx⟩)
+      hkeepL hkeepB
+    simp only [List.map_nil] at hdc
+    rw [docSD, eData, eL, eB, hho, docEs_append, hf.1, hf.2, hdc, hdoc.2, dedup_cnormI]
+    simp only [hdrItems, hfirst.2, writtenDoc2, canonItems, dedupI]
+
+/-- **M3, comments may repeat.**  The text written for `denC c items` is a layout of `writtenDoc2 items`: the
+    document without the comments that repeat an earlier comment of their kind and level, in the writer's spelling,
+    top-level block comments first, the default header in front unless the document has its own. -/
+theorem C12_write_commented2 :
+    ∃ gaps, fmtSD .native (denC c items) = some (spreadC (ctoksItems (writtenDoc2 items)) ([] :: gaps) ['\n']) ∧
+      GapsOKC (ctoksItems (writtenDoc2 items)) (['\n'] :: gaps) ['\n'] = true := by
+  obtain ⟨hwok, hdoc⟩ := sdOf2_facts H
+  rw [denC_closed2 H.toHDoc2, ← hdoc]
+  exact write_commented _ hwok
+
+end
+
+/-! ## 25. M4 when comments may repeat -/
+
+mutual
+  theorem wf_dedupV : ∀ (v : CSrc) (d : Nat), CSrcWFV d v = true → CSrcWFV d (dedupV v) = true
+    | .lit l, _, h => by simpa only [dedupV] using h
+    | .list xs, _, h => by simpa only [dedupV] using h
+    | .dict items, d, h => by
+      simp only [CSrcWFV] at h
+      simp only [dedupV, CSrcWFV]
+      exact wf_dedupI items (d + 1) [] [] h
+  theorem wf_dedupI : ∀ (items : List CItem) (d : Nat) (sl sb : List Str), CSrcWFItems d items = true →
+      CSrcWFItems d (dedupLvl sl sb items) = true
+    | [], _, _, _, _ => by simp [dedupLvl, CSrcWFItems]
+    | .entry k v :: r, d, sl, sb, h => by
+      simp only [CSrcWFItems, Bool.and_eq_true] at h
+      simp only [dedupLvl, CSrcWFItems, Bool.and_eq_true]
+      exact ⟨⟨h.1.1, wf_dedupV v d h.1.2⟩, wf_dedupI r d sl sb h.2⟩
+    | .lineC x :: r, d, sl, sb, h => by
+      simp only [CSrcWFItems, Bool.and_eq_true] at h
+      simp only [dedupLvl]
+      split
+      · exact wf_dedupI r d sl sb h.2
+      · simp only [CSrcWFItems, Bool.and_eq_true]; exact ⟨h.1, wf_dedupI r d _ sb h.2⟩
+    | .blockC x :: r, d, sl, sb, h => by
+      simp only [CSrcWFItems, Bool.and_eq_true] at h
+      simp only [dedupLvl]
+      split
+      · exact wf_dedupI r d sl sb h.2
+      · simp only [CSrcWFItems, Bool.and_eq_true]; exact ⟨h.1, wf_dedupI r d sl _ h.2⟩
+end
+
+mutual
+  theorem ok_dedupV : ∀ (v : CSrc) (d : Nat), okV d v = true → okV d (dedupV v) = true
+    | .lit l, _, h => by simpa only [dedupV] using h
+    | .list xs, _, h => by simpa only [dedupV] using h
+    | .dict items, d, h => by
+      simp only [okV] at h
+      simp only [dedupV, okV]
+      exact ok_dedupI items (d + 1) [] [] h
+  theorem ok_dedupI : ∀ (items : List CItem) (d : Nat) (sl sb : List Str), okI d items = true →
+      okI d (dedupLvl sl sb items) = true
+    | [], _, _, _, _ => by simp [dedupLvl, okI]
+    | .entry k v :: r, d, sl, sb, h => by
+      simp only [okI, Bool.and_eq_true] at h
+      simp only [dedupLvl, okI, Bool.and_eq_true]
+      exact ⟨⟨h.1.1, ok_dedupV v d h.1.2⟩, ok_dedupI r d sl sb h.2⟩
+    | .lineC x :: r, d, sl, sb, h => by
+      simp only [okI, Bool.and_eq_true] at h
+      simp only [dedupLvl]
+      split
+      · exact ok_dedupI r d sl sb h.2
+      · simp only [okI, Bool.and_eq_true]; exact ⟨h.1, ok_dedupI r d _ sb h.2⟩
+    | .blockC x :: r, d, sl, sb, h => by
+      simp only [okI, Bool.and_eq_true] at h
+      simp only [dedupLvl]
+      split
+      · exact ok_dedupI r d sl sb h.2
+      · simp only [okI, Bool.and_eq_true]; exact ⟨h.1, ok_dedupI r d sl _ h.2⟩
+end
+
+theorem writtenDoc2_wf {c : Counter} {items : List CItem} (H : HW2 c items) :
+    CSrcWFItems 1 (writtenDoc2 items) = true := by
+  have h := cnorm_wfI (dedupI items) 1 (wf_dedupI items 1 [] [] H.wf) (ok_dedupI items 1 [] [] H.ok)
+  simp only [writtenDoc2, canonItems]
+  rw [wfI_append, wfI_append, wfI_filter 1 _ _ h, wfI_filter 1 _ _ h]
+  split
+  · simp [CSrcWFItems]
+  · simp [CSrcWFItems, hdrBody_text]
+
+/-- the texts without those seen before -/
+def nubFrom : List Str → List Str → List Str
+  | _, [] => []
+  | seen, x :: r => if seen.contains x then nubFrom seen r else x :: nubFrom (seen ++ [x]) r
+
+/-- what `dedupLvl` does to the comments of one level: each text once, at its first place; the entries stay -/
+theorem lvl_dedup : ∀ (items : List CItem) (sl sb : List Str),
+    lvlLines (dedupLvl sl sb items) = nubFrom sl (lvlLines items) ∧
+    lvlBlocks (dedupLvl sl sb items) = nubFrom sb (lvlBlocks items) ∧
+    levelKeys (dedupLvl sl sb items) = levelKeys items
+  | [], _, _ => by simp [dedupLvl, lvlLines, lvlBlocks, levelKeys, nubFrom]
+  | .entry k v :: r, sl, sb => by
+    obtain ⟨a, b, c⟩ := lvl_dedup r sl sb
+    simp only [dedupLvl, lvlLines, lvlBlocks, levelKeys, a, b, c]
+    exact ⟨trivial, trivial, trivial⟩
+  | .lineC x :: r, sl, sb => by
+    simp only [dedupLvl, lvlLines, lvlBlocks, levelKeys, nubFrom]
+    split
+    · exact lvl_dedup r sl sb
+    · obtain ⟨a, b, c⟩ := lvl_dedup r (sl ++ [x]) sb
+      simp only [lvlLines, lvlBlocks, levelKeys, a, b, c]
+      exact ⟨trivial, trivial, trivial⟩
+  | .blockC x :: r, sl, sb => by
+    simp only [dedupLvl, lvlLines, lvlBlocks, levelKeys, nubFrom]
+    split
+    · exact lvl_dedup r sl sb
+    · obtain ⟨a, b, c⟩ := lvl_dedup r sl (sb ++ [x])
+      simp only [lvlLines, lvlBlocks, levelKeys, a, b, c]
+      exact ⟨trivial, trivial, trivial⟩
+
+/-- the top level of the document written when comments may repeat -/
+theorem writtenDoc2_top (items : List CItem) :
+    (writtenDoc2 items).filter (fun it => !isBlockItem it) = (cnormI (dedupI items)).filter (fun it => !isBlockItem it) ∧
+    (writtenDoc2 items).filter isBlockItem =
+      (if ownHeaderI items then [] else [.blockC C12.hdrBody]) ++ (cnormI (dedupI items)).filter isBlockItem := by
+  have h1 : ((cnormI (dedupI items)).filter isBlockItem).filter (fun it => !isBlockItem it) = [] := by
+    simp [List.filter_filter]
+  have h2 : ((cnormI (dedupI items)).filter (fun it => !isBlockItem it)).filter isBlockItem = [] := by
+    simp [List.filter_filter]
+  have h3 : ((cnormI (dedupI items)).filter isBlockItem).filter isBlockItem = (cnormI (dedupI items)).filter isBlockItem := by
+    simp only [List.filter_filter, Bool.and_self]
+  have h4 : ((cnormI (dedupI items)).filter (fun it => !isBlockItem it)).filter (fun it => !isBlockItem it) =
+      (cnormI (dedupI items)).filter (fun it => !isBlockItem it) := by
+    simp only [List.filter_filter, Bool.and_self]
+  have hB : isBlockItem (.blockC C12.hdrBody) = true := rfl
+  simp only [writtenDoc2, canonItems, List.filter_append, h1, h2, h3, h4, List.nil_append, List.append_nil]
+  constructor
+  · split
+    · rfl
+    · simp only [List.filter_cons, hB, Bool.not_true, Bool.false_eq_true, if_false, List.filter_nil, List.nil_append]
+  · split
+    · rfl
+    · simp only [List.filter_cons, hB, if_true, List.filter_nil]
+
+/-- **M4 `C12_roundtrip_commented2`, comments may repeat.**  Reading the written text (any valid counter) returns the
+    meaning of `writtenDoc2 items`.  Its comments are those of `dedupI items` — per level and kind every text once, at
+    its first place (`lvl_dedup`) —, each at its place among the entries of its level (`skel_cnormI`); at top level
+    the block comments stand first, the default header in front of them unless the document has its own
+    (`writtenDoc2_top`). -/
+theorem C12_roundtrip_commented2 {c c₂ : Counter} {items : List CItem} (dir : Str) (H : HW2 c items)
+    (hc₂ : C13.ValidCounter Gen.counterLimit c₂)
+    (hn : C02.countQuotedEs (plainItems (writtenDoc2 items)) ≤ Gen.counterLimit + 1)
+    (hd : C02.DocKeysAbsent (plainItems (writtenDoc2 items))) :
+    ∃ text c', fmtSD .native (denC c items) = some text ∧
+      parseNative true dir c₂ text = .ok (denC c₂ (writtenDoc2 items), c') ∧
+      skelI (cnormI (dedupI items)) = skelI (dedupI items) := by
+  obtain ⟨gaps, hw, hg⟩ := C12_write_commented2 H
+  have hread := C12.C12_read_commented dir c₂ (writtenDoc2_wf H) hg (fun _ => by decide) hc₂ hn hd
+  refine ⟨_, C02.adv Gen.counterLimit (C02.countQuotedEs (plainItems (writtenDoc2 items)))
+    (labelCItems { counter := c₂ } (writtenDoc2 items)).1.counter, hw, ?_, skel_cnormI _⟩
+  cases hct : ctoksItems (writtenDoc2 items) with
+  | nil =>
+    have e0 : ∀ g : List Str, spreadC [] g ['\n'] = ['\n'] := fun g => rfl
+    rw [hct, e0] at hread
+    rw [e0]
+    exact hread
+  | cons t ts =>
+    have e : spreadC (t :: ts) (['\n'] :: gaps) ['\n'] = '\n' :: spreadC (t :: ts) ([] :: gaps) ['\n'] := by
+      simp [spreadC, spread]
+    rw [hct, e, parseNative_nl] at hread
+    exact hread
+
+/-! ## 26. M5 when comments repeat -/
+
+/-- `/* C++ hdr */ // l1⏎ // l1⏎ /* b */ /* b */ a 1; // l2⏎ sub { // l1⏎ // l1⏎ }` -/
+def exDup : List CItem :=
+  [ .blockC " C++ hdr ".toList, .lineC " l1".toList, .lineC " l1".toList, .blockC " b ".toList, .blockC " b ".toList,
+    .entry "a".toList (.lit (.bare "1".toList)), .lineC " l2".toList,
+    .entry "sub".toList (.dict [.lineC " l1".toList, .lineC " l1".toList]) ]
+
+theorem exDup_hw : HW2 none exDup :=
+  ⟨⟨by decide +kernel, by decide +kernel, by decide +kernel, by decide +kernel, by decide +kernel, by decide +kernel,
+    Or.inl rfl⟩, by decide +kernel, by decide +kernel⟩
+
+/-- what is left of the comments: per level and kind each text once -/
+theorem exDup_dedup : lvlLines (dedupI exDup) = [" l1".toList, " l2".toList] ∧
+    lvlBlocks (dedupI exDup) = [" C++ hdr ".toList, " b ".toList] := by decide +kernel
+
+def exDupData : Entries :=
+  [ (.str "BLOCKCOMMENT000000".toList, .leaf (.str "BLOCKCOMMENT000000".toList)),
+    (.str "BLOCKCOMMENT000001".toList, .leaf (.str "BLOCKCOMMENT000001".toList)),
+    (.str "LINECOMMENT000000".toList, .leaf (.str "LINECOMMENT000000".toList)),
+    (.str "a".toList, .leaf (.int 1)),
+    (.str "LINECOMMENT000002".toList, .leaf (.str "LINECOMMENT000002".toList)),
+    (.str "sub".toList, .dict [ (.str "LINECOMMENT000003".toList, .leaf (.str "LINECOMMENT000003".toList)) ]) ]
+
+/-- the SDict the reader returns: the second `// l1`, the second `/* b */` and the second `// l1` inside `sub` are gone,
+    from the data and from the tables -/
+theorem exDup_sd : hoistPlaceholders (denC none exDup).data = exDupData ∧
+    (denC none exDup).lineC = [(0, "// l1".toList), (2, "// l2".toList), (3, "// l1".toList)] ∧
+    (denC none exDup).blockC = [(0, "/* C++ hdr */".toList), (1, "/* b */".toList)] ∧ (denC none exDup).incl = [] := by
+  decide +kernel
+
+theorem exDup_raw : fmtEntries .native 0 exDupData = C01.unlines
+    ["BLOCKCOMMENT000000            BLOCKCOMMENT000000;",
+     "BLOCKCOMMENT000001            BLOCKCOMMENT000001;",
+     "LINECOMMENT000000             LINECOMMENT000000;",
+     "a                             1;",
+     "LINECOMMENT000002             LINECOMMENT000002;",
+     "sub",
+     "{",
+     "    LINECOMMENT000003         LINECOMMENT000003;",
+     "}"] := by
+  simp only [exDupData, fmtEntries]
+  decide +kernel
+
+def exDupText : Str := C01.unlines
+    ["/* C++ hdr */",
+     "/* b */",
+     "// l1",
+     "a                             1;",
+     "// l2",
+     "sub",
+     "{",
+     "    // l1",
+     "}"]
+
+/-- the written text, by evaluation -/
+theorem exDup_written : fmtSD .native (denC none exDup) = some exDupText := by
+  obtain ⟨h1, h2, h3, h4⟩ := exDup_sd
+  rw [fmtSD_noIncl _ h4, h1, h2, h3, exDup_raw]
+  decide +kernel
+
+theorem exDup_roundtrip (dir : Str) :
+    ∃ c', parseNative true dir none exDupText = .ok (denC none (writtenDoc2 exDup), c') := by
+  obtain ⟨text, c', h1, h2, _⟩ := C12_roundtrip_commented2 (c₂ := none) dir exDup_hw (Or.inl rfl) (by decide +kernel)
+    (by decide +kernel)
+  rw [exDup_written] at h1
+  cases h1
+  exact ⟨c', h2⟩
 
 end DictIO.C12W
